@@ -16,504 +16,595 @@ Definition terms (ts : list tok) (t : pt) : string :=
   digest (show_toks (Some ts)) ++ " " ++ digest (show_pt (Some t)) ++ " " ++ digest (show_pt (parse ts)).
 Definition terms_full (ts : list tok) (t : pt) : string :=
   show_toks (Some ts) ++ nl ++ show_pt (Some t) ++ nl ++ show_pt (parse ts).
-Eval vm_compute in ("<<<M3>>>" ++ check (runes_of_ascii "
-options	{
-} MetaData pack {string T ,
-    msg_type
-    // a // b
-    stringy `" ++ [233]%N ++ runes_of_ascii "`
-, }
-    // " ++ [128512]%N ++ runes_of_ascii " emoji
-    packet a1 {
-// " ++ [128512]%N ++ runes_of_ascii " emoji
-// packet A { u8 x, }
-repeat i32 x , i16 msg_type @calculatedFrom( ""it's""
-    )`two words` , } // " ++ [27880; 37322]%N)).
-Eval vm_compute in ("<<<M13>>>" ++ check (runes_of_ascii "
-packet msg_type
-    // packet A { u8 x, }
-    {//	t
-string	packetx @lengthOf( charz )	, @calculatedFrom( """"  )
-repeat char[ 0123456789
-    ]
-    // c
-    int `it's` ,
-    @rightPad (// packet A { u8 x, }
-)
-@tag( 42 )
-    @calculatedFrom( ""`tick`""
-) repeat
-uint16
-falsey  `" ++ [233]%N ++ runes_of_ascii "`
-, i32 Foo , @tag(7 ) u64
-chars@lengthOf(  BodyLength ), i16
-    Z9_@lengthOf(/// triple
-a1 ) ,@lengthOf(leftPad ) lengthOf body ``	, @tag(
-    007 )
-char[
-    10 //x
-]
-_x
-// a // b
-// " ++ [27880; 37322]%N ++ runes_of_ascii "
-@lengthOf(
-    roots )	`
-` , // a // b
-@calculatedFrom(""a\\"" )
-    float64 //	t
-rootA`doc` , string T @calculatedFrom( """" ) , }")).
-Eval vm_compute in ("<<<T13>>>" ++ terms [mkTok 35 "packet" 2 0 false; mkTok 42 "msg_type" 2 7 false; mkTok 44 "// packet A { u8 x, }" 3 4 true; mkTok 2 "{" 4 4 false; mkTok 44 (string_of_bytes [47; 47; 9; 116]%N) 4 5 true; mkTok 15 "string" 5 0 false; mkTok 42 "packetx" 5 7 false; mkTok 7 "@lengthOf(" 5 15 false; mkTok 42 "charz" 5 26 false; mkTok 6 ")" 5 32 false; mkTok 40 "," 5 34 false; mkTok 5 "@calculatedFrom(" 5 36 false; mkTok 31 """""" 5 53 false; mkTok 6 ")" 5 57 false; mkTok 36 "repeat" 6 0 false; mkTok 12 "char[" 6 7 false; mkTok 30 "0123456789" 6 13 false; mkTok 13 "]" 7 4 false; mkTok 44 "// c" 8 4 true; mkTok 42 "int" 9 4 false; mkTok 43 "`it's`" 9 8 false; mkTok 40 "," 9 15 false; mkTok 32 "@rightPad" 10 4 false; mkTok 8 "(" 10 14 false; mkTok 44 "// packet A { u8 x, }" 10 15 true; mkTok 6 ")" 11 0 false; mkTok 9 "@tag(" 12 0 false; mkTok 30 "42" 12 6 false; mkTok 6 ")" 12 9 false; mkTok 5 "@calculatedFrom(" 13 4 false; mkTok 31 """`tick`""" 13 21 false; mkTok 6 ")" 14 0 false; mkTok 36 "repeat" 14 2 false; mkTok 21 "uint16" 15 0 false; mkTok 42 "falsey" 16 0 false; mkTok 43 (string_of_bytes [96; 195; 169; 96]%N) 16 8 false; mkTok 40 "," 17 0 false; mkTok 26 "i32" 17 2 false; mkTok 42 "Foo" 17 6 false; mkTok 40 "," 17 10 false; mkTok 9 "@tag(" 17 12 false; mkTok 30 "7" 17 17 false; mkTok 6 ")" 17 19 false; mkTok 23 "u64" 17 21 false; mkTok 42 "chars" 18 0 false; mkTok 7 "@lengthOf(" 18 5 false; mkTok 42 "BodyLength" 18 17 false; mkTok 6 ")" 18 28 false; mkTok 40 "," 18 29 false; mkTok 25 "i16" 18 31 false; mkTok 42 "Z9_" 19 4 false; mkTok 7 "@lengthOf(" 19 7 false; mkTok 44 "/// triple" 19 17 true; mkTok 42 "a1" 20 0 false; mkTok 6 ")" 20 3 false; mkTok 40 "," 20 5 false; mkTok 7 "@lengthOf(" 20 6 false; mkTok 42 "leftPad" 20 16 false; mkTok 6 ")" 20 24 false; mkTok 42 "lengthOf" 20 26 false; mkTok 42 "body" 20 35 false; mkTok 43 "``" 20 40 false; mkTok 40 "," 20 43 false; mkTok 9 "@tag(" 20 45 false; mkTok 30 "007" 21 4 false; mkTok 6 ")" 21 8 false; mkTok 12 "char[" 22 0 false; mkTok 30 "10" 23 4 false; mkTok 44 "//x" 23 7 true; mkTok 13 "]" 24 0 false; mkTok 42 "_x" 25 0 false; mkTok 44 "// a // b" 26 0 true; mkTok 44 (string_of_bytes [47; 47; 32; 230; 179; 168; 233; 135; 138]%N) 27 0 true; mkTok 7 "@lengthOf(" 28 0 false; mkTok 42 "roots" 29 4 false; mkTok 6 ")" 29 10 false; mkTok 43 (string_of_bytes [96; 10; 96]%N) 29 12 false; mkTok 40 "," 30 2 false; mkTok 44 "// a // b" 30 4 true; mkTok 5 "@calculatedFrom(" 31 0 false; mkTok 31 """a\\""" 31 16 false; mkTok 6 ")" 31 22 false; mkTok 29 "float64" 32 4 false; mkTok 44 (string_of_bytes [47; 47; 9; 116]%N) 32 12 true; mkTok 42 "rootA" 33 0 false; mkTok 43 "`doc`" 33 5 false; mkTok 40 "," 33 11 false; mkTok 15 "string" 33 13 false; mkTok 42 "T" 33 20 false; mkTok 5 "@calculatedFrom(" 33 22 false; mkTok 31 """""" 33 39 false; mkTok 6 ")" 33 42 false; mkTok 40 "," 33 44 false; mkTok 3 "}" 33 46 false; mkTok 0 "<EOF>" 33 47 false] (mkPacket (mkPtok 35 "packet" 2 0 0) (Some (mkPtok 3 "}" 33 46 93)) [(DPacket (mkPacketDef (mkSpan (mkPtok 35 "packet" 2 0 0) (mkPtok 3 "}" 33 46 93)) None (mkPtok 35 "packet" 2 0 0) (mkPtok 42 "msg_type" 2 7 1) (mkPtok 2 "{" 4 4 3) [(mkFieldWithAttr (mkSpan (mkPtok 15 "string" 5 0 5) (mkPtok 40 "," 5 34 10)) [] (LengthField (mkSpan (mkPtok 15 "string" 5 0 5) (mkPtok 40 "," 5 34 10)) (mkLengthFieldDecl (mkSpan (mkPtok 15 "string" 5 0 5) (mkPtok 40 "," 5 34 10)) (Some (TyDynamic (mkSpan (mkPtok 15 "string" 5 0 5) (mkPtok 15 "string" 5 0 5)) (mkDynamicString (mkSpan (mkPtok 15 "string" 5 0 5) (mkPtok 15 "string" 5 0 5)) (mkPtok 15 "string" 5 0 5)))) (mkPtok 42 "packetx" 5 7 6) (mkLengthOf (mkSpan (mkPtok 7 "@lengthOf(" 5 15 7) (mkPtok 6 ")" 5 32 9)) (mkPtok 7 "@lengthOf(" 5 15 7) (mkPtok 42 "charz" 5 26 8) (mkPtok 6 ")" 5 32 9)) None (mkPtok 40 "," 5 34 10)))); (mkFieldWithAttr (mkSpan (mkPtok 5 "@calculatedFrom(" 5 36 11) (mkPtok 40 "," 9 15 21)) [(FACalculatedFrom (mkSpan (mkPtok 5 "@calculatedFrom(" 5 36 11) (mkPtok 6 ")" 5 57 13)) (mkCalculatedFrom (mkSpan (mkPtok 5 "@calculatedFrom(" 5 36 11) (mkPtok 6 ")" 5 57 13)) (mkPtok 5 "@calculatedFrom(" 5 36 11) (mkPtok 31 """""" 5 53 12) (mkPtok 6 ")" 5 57 13)))] (MetaField (mkSpan (mkPtok 36 "repeat" 6 0 14) (mkPtok 40 "," 9 15 21)) (Some (mkPtok 36 "repeat" 6 0 14)) (mkMetaDecl (mkSpan (mkPtok 12 "char[" 6 7 15) (mkPtok 40 "," 9 15 21)) (TyFixed (mkSpan (mkPtok 12 "char[" 6 7 15) (mkPtok 13 "]" 7 4 17)) (mkFixedString (mkSpan (mkPtok 12 "char[" 6 7 15) (mkPtok 13 "]" 7 4 17)) (mkPtok 12 "char[" 6 7 15) (mkPtok 30 "0123456789" 6 13 16) (mkPtok 13 "]" 7 4 17))) (mkPtok 42 "int" 9 4 19) (Some (mkPtok 43 "`it's`" 9 8 20)) (mkPtok 40 "," 9 15 21)))); (mkFieldWithAttr (mkSpan (mkPtok 32 "@rightPad" 10 4 22) (mkPtok 40 "," 17 0 36)) [(FAPadding (mkSpan (mkPtok 32 "@rightPad" 10 4 22) (mkPtok 6 ")" 11 0 25)) (mkPaddingAttr (mkSpan (mkPtok 32 "@rightPad" 10 4 22) (mkPtok 6 ")" 11 0 25)) (mkPtok 32 "@rightPad" 10 4 22) (mkPtok 8 "(" 10 14 23) None (mkPtok 6 ")" 11 0 25))); (FATag (mkSpan (mkPtok 9 "@tag(" 12 0 26) (mkPtok 6 ")" 12 9 28)) (mkTagAttr (mkSpan (mkPtok 9 "@tag(" 12 0 26) (mkPtok 6 ")" 12 9 28)) (mkPtok 9 "@tag(" 12 0 26) (mkPtok 30 "42" 12 6 27) (mkPtok 6 ")" 12 9 28))); (FACalculatedFrom (mkSpan (mkPtok 5 "@calculatedFrom(" 13 4 29) (mkPtok 6 ")" 14 0 31)) (mkCalculatedFrom (mkSpan (mkPtok 5 "@calculatedFrom(" 13 4 29) (mkPtok 6 ")" 14 0 31)) (mkPtok 5 "@calculatedFrom(" 13 4 29) (mkPtok 31 """`tick`""" 13 21 30) (mkPtok 6 ")" 14 0 31)))] (MetaField (mkSpan (mkPtok 36 "repeat" 14 2 32) (mkPtok 40 "," 17 0 36)) (Some (mkPtok 36 "repeat" 14 2 32)) (mkMetaDecl (mkSpan (mkPtok 21 "uint16" 15 0 33) (mkPtok 40 "," 17 0 36)) (TyBasic (mkSpan (mkPtok 21 "uint16" 15 0 33) (mkPtok 21 "uint16" 15 0 33)) (mkBasicType (mkSpan (mkPtok 21 "uint16" 15 0 33) (mkPtok 21 "uint16" 15 0 33)) (mkPtok 21 "uint16" 15 0 33))) (mkPtok 42 "falsey" 16 0 34) (Some (mkPtok 43 (string_of_bytes [96; 195; 169; 96]%N) 16 8 35)) (mkPtok 40 "," 17 0 36)))); (mkFieldWithAttr (mkSpan (mkPtok 26 "i32" 17 2 37) (mkPtok 40 "," 17 10 39)) [] (MetaField (mkSpan (mkPtok 26 "i32" 17 2 37) (mkPtok 40 "," 17 10 39)) None (mkMetaDecl (mkSpan (mkPtok 26 "i32" 17 2 37) (mkPtok 40 "," 17 10 39)) (TyBasic (mkSpan (mkPtok 26 "i32" 17 2 37) (mkPtok 26 "i32" 17 2 37)) (mkBasicType (mkSpan (mkPtok 26 "i32" 17 2 37) (mkPtok 26 "i32" 17 2 37)) (mkPtok 26 "i32" 17 2 37))) (mkPtok 42 "Foo" 17 6 38) None (mkPtok 40 "," 17 10 39)))); (mkFieldWithAttr (mkSpan (mkPtok 9 "@tag(" 17 12 40) (mkPtok 40 "," 18 29 48)) [(FATag (mkSpan (mkPtok 9 "@tag(" 17 12 40) (mkPtok 6 ")" 17 19 42)) (mkTagAttr (mkSpan (mkPtok 9 "@tag(" 17 12 40) (mkPtok 6 ")" 17 19 42)) (mkPtok 9 "@tag(" 17 12 40) (mkPtok 30 "7" 17 17 41) (mkPtok 6 ")" 17 19 42)))] (LengthField (mkSpan (mkPtok 23 "u64" 17 21 43) (mkPtok 40 "," 18 29 48)) (mkLengthFieldDecl (mkSpan (mkPtok 23 "u64" 17 21 43) (mkPtok 40 "," 18 29 48)) (Some (TyBasic (mkSpan (mkPtok 23 "u64" 17 21 43) (mkPtok 23 "u64" 17 21 43)) (mkBasicType (mkSpan (mkPtok 23 "u64" 17 21 43) (mkPtok 23 "u64" 17 21 43)) (mkPtok 23 "u64" 17 21 43)))) (mkPtok 42 "chars" 18 0 44) (mkLengthOf (mkSpan (mkPtok 7 "@lengthOf(" 18 5 45) (mkPtok 6 ")" 18 28 47)) (mkPtok 7 "@lengthOf(" 18 5 45) (mkPtok 42 "BodyLength" 18 17 46) (mkPtok 6 ")" 18 28 47)) None (mkPtok 40 "," 18 29 48)))); (mkFieldWithAttr (mkSpan (mkPtok 25 "i16" 18 31 49) (mkPtok 40 "," 20 5 55)) [] (LengthField (mkSpan (mkPtok 25 "i16" 18 31 49) (mkPtok 40 "," 20 5 55)) (mkLengthFieldDecl (mkSpan (mkPtok 25 "i16" 18 31 49) (mkPtok 40 "," 20 5 55)) (Some (TyBasic (mkSpan (mkPtok 25 "i16" 18 31 49) (mkPtok 25 "i16" 18 31 49)) (mkBasicType (mkSpan (mkPtok 25 "i16" 18 31 49) (mkPtok 25 "i16" 18 31 49)) (mkPtok 25 "i16" 18 31 49)))) (mkPtok 42 "Z9_" 19 4 50) (mkLengthOf (mkSpan (mkPtok 7 "@lengthOf(" 19 7 51) (mkPtok 6 ")" 20 3 54)) (mkPtok 7 "@lengthOf(" 19 7 51) (mkPtok 42 "a1" 20 0 53) (mkPtok 6 ")" 20 3 54)) None (mkPtok 40 "," 20 5 55)))); (mkFieldWithAttr (mkSpan (mkPtok 7 "@lengthOf(" 20 6 56) (mkPtok 40 "," 20 43 62)) [(FALengthOf (mkSpan (mkPtok 7 "@lengthOf(" 20 6 56) (mkPtok 6 ")" 20 24 58)) (mkLengthOf (mkSpan (mkPtok 7 "@lengthOf(" 20 6 56) (mkPtok 6 ")" 20 24 58)) (mkPtok 7 "@lengthOf(" 20 6 56) (mkPtok 42 "leftPad" 20 16 57) (mkPtok 6 ")" 20 24 58)))] (ObjectField (mkSpan (mkPtok 42 "lengthOf" 20 26 59) (mkPtok 40 "," 20 43 62)) None (mkPtok 42 "lengthOf" 20 26 59) (Some (mkPtok 42 "body" 20 35 60)) (Some (mkPtok 43 "``" 20 40 61)) (mkPtok 40 "," 20 43 62))); (mkFieldWithAttr (mkSpan (mkPtok 9 "@tag(" 20 45 63) (mkPtok 40 "," 30 2 77)) [(FATag (mkSpan (mkPtok 9 "@tag(" 20 45 63) (mkPtok 6 ")" 21 8 65)) (mkTagAttr (mkSpan (mkPtok 9 "@tag(" 20 45 63) (mkPtok 6 ")" 21 8 65)) (mkPtok 9 "@tag(" 20 45 63) (mkPtok 30 "007" 21 4 64) (mkPtok 6 ")" 21 8 65)))] (LengthField (mkSpan (mkPtok 12 "char[" 22 0 66) (mkPtok 40 "," 30 2 77)) (mkLengthFieldDecl (mkSpan (mkPtok 12 "char[" 22 0 66) (mkPtok 40 "," 30 2 77)) (Some (TyFixed (mkSpan (mkPtok 12 "char[" 22 0 66) (mkPtok 13 "]" 24 0 69)) (mkFixedString (mkSpan (mkPtok 12 "char[" 22 0 66) (mkPtok 13 "]" 24 0 69)) (mkPtok 12 "char[" 22 0 66) (mkPtok 30 "10" 23 4 67) (mkPtok 13 "]" 24 0 69)))) (mkPtok 42 "_x" 25 0 70) (mkLengthOf (mkSpan (mkPtok 7 "@lengthOf(" 28 0 73) (mkPtok 6 ")" 29 10 75)) (mkPtok 7 "@lengthOf(" 28 0 73) (mkPtok 42 "roots" 29 4 74) (mkPtok 6 ")" 29 10 75)) (Some (mkPtok 43 (string_of_bytes [96; 10; 96]%N) 29 12 76)) (mkPtok 40 "," 30 2 77)))); (mkFieldWithAttr (mkSpan (mkPtok 5 "@calculatedFrom(" 31 0 79) (mkPtok 40 "," 33 11 86)) [(FACalculatedFrom (mkSpan (mkPtok 5 "@calculatedFrom(" 31 0 79) (mkPtok 6 ")" 31 22 81)) (mkCalculatedFrom (mkSpan (mkPtok 5 "@calculatedFrom(" 31 0 79) (mkPtok 6 ")" 31 22 81)) (mkPtok 5 "@calculatedFrom(" 31 0 79) (mkPtok 31 """a\\""" 31 16 80) (mkPtok 6 ")" 31 22 81)))] (MetaField (mkSpan (mkPtok 29 "float64" 32 4 82) (mkPtok 40 "," 33 11 86)) None (mkMetaDecl (mkSpan (mkPtok 29 "float64" 32 4 82) (mkPtok 40 "," 33 11 86)) (TyBasic (mkSpan (mkPtok 29 "float64" 32 4 82) (mkPtok 29 "float64" 32 4 82)) (mkBasicType (mkSpan (mkPtok 29 "float64" 32 4 82) (mkPtok 29 "float64" 32 4 82)) (mkPtok 29 "float64" 32 4 82))) (mkPtok 42 "rootA" 33 0 84) (Some (mkPtok 43 "`doc`" 33 5 85)) (mkPtok 40 "," 33 11 86)))); (mkFieldWithAttr (mkSpan (mkPtok 15 "string" 33 13 87) (mkPtok 40 "," 33 44 92)) [] (CheckSumField (mkSpan (mkPtok 15 "string" 33 13 87) (mkPtok 40 "," 33 44 92)) (mkChecksumFieldDecl (mkSpan (mkPtok 15 "string" 33 13 87) (mkPtok 40 "," 33 44 92)) (Some (TyDynamic (mkSpan (mkPtok 15 "string" 33 13 87) (mkPtok 15 "string" 33 13 87)) (mkDynamicString (mkSpan (mkPtok 15 "string" 33 13 87) (mkPtok 15 "string" 33 13 87)) (mkPtok 15 "string" 33 13 87)))) (mkPtok 42 "T" 33 20 88) (mkCalculatedFrom (mkSpan (mkPtok 5 "@calculatedFrom(" 33 22 89) (mkPtok 6 ")" 33 42 91)) (mkPtok 5 "@calculatedFrom(" 33 22 89) (mkPtok 31 """""" 33 39 90) (mkPtok 6 ")" 33 42 91)) None (mkPtok 40 "," 33 44 92))))] (mkPtok 3 "}" 33 46 93)))])).
-Eval vm_compute in ("<<<M23>>>" ++ check (runes_of_ascii "options
-    // a // b
-    {
-float	= char[ 4294967296 ] ; }
+Eval vm_compute in ("<<<M3>>>" ++ check (runes_of_ascii "options
+    { u
+    = ' ' } packet crc
+    { @rightPad // @lengthOf(
+() u	u`tab	here` , } //x")).
+Eval vm_compute in ("<<<M13>>>" ++ check (runes_of_ascii "options
+{ matchKey= ""x y"";len =
+'\x00' }
 ")).
-Eval vm_compute in ("<<<M33>>>" ++ check (runes_of_ascii "options	{
-    // `tick` ""quote"" 'q'
-    Foo
-= zchar[
-    1
-]uint8x =""// no comment"" Pad
-=
-    //
-    char[] ;
-    A
-= 4294967296
-    a1 = ""`tick`"" ; } packet BodyLength  {
-@calculatedFrom(
-""packet"" ) roots `// not a comment`,@tag( 10 ) f32 uint8x/// triple
-`" ++ [28040; 24687; 31867; 22411]%N ++ runes_of_ascii "`
-,	}
-
-")).
-Eval vm_compute in ("<<<M43>>>" ++ check (runes_of_ascii "packet	BodyLength { repeat f32a Pad`// not a comment` ,
-// " ++ [128512]%N ++ runes_of_ascii " emoji
-// c
-}
-MetaData As { }options { crc
-    // packet A { u8 x, }
-    =
-""a\\""
-float= '\x00'
-    a1 // c
-= ' ';i8i8 =
-    4294967296
-}	packet u128 {
-// `tick` ""quote"" 'q'
-//
-match //x
-stringy as o{ ""`tick`""  : Foo  , [ 4294967296 ]	: x_y_z ,} ,zchar[ /// triple
-10 ] // `tick` ""quote"" 'q'
-Packet@lengthOf(u8x
-),
-@lengthOf(
-roots) // " ++ [27880; 37322]%N ++ runes_of_ascii "
-x
-    `// not a comment` , i64
-    asx @lengthOf( rootA ) , metadata ,
-i64_ @calculatedFrom(  ""\" ++ [233]%N ++ runes_of_ascii """ ) ,	@lengthOf(u128
-) repeat o `two words` , }
-")).
-Eval vm_compute in ("<<<M53>>>" ++ check (runes_of_ascii "packet BodyLength {}
-")).
-Eval vm_compute in ("<<<M63>>>" ++ check (runes_of_ascii "options
-{  chars =
-    /// triple
-    char; o
-    /// triple
-    = true u128 =
-    ""x y"" ;} packet	chars
-    { @calculatedFrom( ""\n"" )repeat f64 packetx  ,  @tag(4294967296 ) float32 Header
-, zchar[
-007
-]float `// not a comment`
-    ,
-    }
-options  {
-stringy = zchar[ 7 ] ;}")).
-Eval vm_compute in ("<<<M73>>>" ++ check (runes_of_ascii "// " ++ [27880; 37322]%N ++ runes_of_ascii "
-packet  matchKey{
-    }
-// c
-")).
-Eval vm_compute in ("<<<M83>>>" ++ check (runes_of_ascii "
-root packet // `tick` ""quote"" 'q'
-rootA { @rightPad (
-) @leftPad(	) @lengthOf(  MetaDataX  )float// c
-u128`a\` , // `tick` ""quote"" 'q'
-}
-")).
-Eval vm_compute in ("<<<T83>>>" ++ terms [mkTok 34 "root" 2 0 false; mkTok 35 "packet" 2 5 false; mkTok 44 "// `tick` ""quote"" 'q'" 2 12 true; mkTok 42 "rootA" 3 0 false; mkTok 2 "{" 3 6 false; mkTok 32 "@rightPad" 3 8 false; mkTok 8 "(" 3 18 false; mkTok 6 ")" 4 0 false; mkTok 32 "@leftPad" 4 2 false; mkTok 8 "(" 4 10 false; mkTok 6 ")" 4 12 false; mkTok 7 "@lengthOf(" 4 14 false; mkTok 42 "MetaDataX" 4 26 false; mkTok 6 ")" 4 37 false; mkTok 42 "float" 4 38 false; mkTok 44 "// c" 4 43 true; mkTok 42 "u128" 5 0 false; mkTok 43 "`a\`" 5 4 false; mkTok 40 "," 5 9 false; mkTok 44 "// `tick` ""quote"" 'q'" 5 11 true; mkTok 3 "}" 6 0 false; mkTok 0 "<EOF>" 7 0 false] (mkPacket (mkPtok 34 "root" 2 0 0) (Some (mkPtok 3 "}" 6 0 20)) [(DPacket (mkPacketDef (mkSpan (mkPtok 34 "root" 2 0 0) (mkPtok 3 "}" 6 0 20)) (Some (mkPtok 34 "root" 2 0 0)) (mkPtok 35 "packet" 2 5 1) (mkPtok 42 "rootA" 3 0 3) (mkPtok 2 "{" 3 6 4) [(mkFieldWithAttr (mkSpan (mkPtok 32 "@rightPad" 3 8 5) (mkPtok 40 "," 5 9 18)) [(FAPadding (mkSpan (mkPtok 32 "@rightPad" 3 8 5) (mkPtok 6 ")" 4 0 7)) (mkPaddingAttr (mkSpan (mkPtok 32 "@rightPad" 3 8 5) (mkPtok 6 ")" 4 0 7)) (mkPtok 32 "@rightPad" 3 8 5) (mkPtok 8 "(" 3 18 6) None (mkPtok 6 ")" 4 0 7))); (FAPadding (mkSpan (mkPtok 32 "@leftPad" 4 2 8) (mkPtok 6 ")" 4 12 10)) (mkPaddingAttr (mkSpan (mkPtok 32 "@leftPad" 4 2 8) (mkPtok 6 ")" 4 12 10)) (mkPtok 32 "@leftPad" 4 2 8) (mkPtok 8 "(" 4 10 9) None (mkPtok 6 ")" 4 12 10))); (FALengthOf (mkSpan (mkPtok 7 "@lengthOf(" 4 14 11) (mkPtok 6 ")" 4 37 13)) (mkLengthOf (mkSpan (mkPtok 7 "@lengthOf(" 4 14 11) (mkPtok 6 ")" 4 37 13)) (mkPtok 7 "@lengthOf(" 4 14 11) (mkPtok 42 "MetaDataX" 4 26 12) (mkPtok 6 ")" 4 37 13)))] (ObjectField (mkSpan (mkPtok 42 "float" 4 38 14) (mkPtok 40 "," 5 9 18)) None (mkPtok 42 "float" 4 38 14) (Some (mkPtok 42 "u128" 5 0 16)) (Some (mkPtok 43 "`a\`" 5 4 17)) (mkPtok 40 "," 5 9 18)))] (mkPtok 3 "}" 6 0 20)))])).
-Eval vm_compute in ("<<<M93>>>" ++ check (runes_of_ascii "//	t
-packet
-packetx { zchar , @lengthOf( x_y_z )o ,
-}
-    packet  Packet // " ++ [128512]%N ++ runes_of_ascii " emoji
-{ match u128 as // a // b
-Header{ [
-    7
-    ,""1""
-]: u
-    , ""x y"" :
-charz 0123456789 : calculatedFrom
-//	t
-//x
-} ,// " ++ [27880; 37322]%N ++ runes_of_ascii "
-repeat  roots
-tag
-    ,}")).
-Eval vm_compute in ("<<<M103>>>" ++ check (runes_of_ascii "packet i8i8{ matchKey //x
-, match trueish
-//	t
-// c
-as roots
-{  [ 00 ] : int , 255 :  u128  ,	3 : matchKey , [ 65535 ]
-    :
-// c
-//
-trueish , //	t
-}
-    , } packet packetx{ }
-packet
-u8x {@tag(
-3
-    )
-    match x_y_z as
-leftPad
-{ [ 7 ]:  u8x }
-    , @tag(  42
-) int64 lengthOf ,@tag(
-255 )	zchar[ 7 ]	o , A ,@tag( 0
-    // @lengthOf(
-    ) repeat lengthOf u8x, }
-")).
-Eval vm_compute in ("<<<M113>>>" ++ check (runes_of_ascii "
-
-
-")).
-Eval vm_compute in ("<<<M123>>>" ++ check (runes_of_ascii "options{
-i64_ = ""`tick`""}
-
-")).
-Eval vm_compute in ("<<<M133>>>" ++ check (runes_of_ascii "MetaData msg_type
-    { char[]
-    int
-    ,  char[ 255 ]
-o ,
-    // `tick` ""quote"" 'q'
-    }")).
-Eval vm_compute in ("<<<M143>>>" ++ check (runes_of_ascii "//x
-MetaData falsey{ string Pad , }
-")).
-Eval vm_compute in ("<<<M153>>>" ++ check (runes_of_ascii "root packet	BodyLength
-    {
-    // " ++ [27880; 37322]%N ++ runes_of_ascii "
-    @lengthOf( asx) repeat char[ 007
-] matchKey ,char[]
-MetaDataX @lengthOf(
-Foo) `tab	here` ,
-repeat uint64 //	t
-f32a
-, }")).
-Eval vm_compute in ("<<<T153>>>" ++ terms [mkTok 34 "root" 1 0 false; mkTok 35 "packet" 1 5 false; mkTok 42 "BodyLength" 1 12 false; mkTok 2 "{" 2 4 false; mkTok 44 (string_of_bytes [47; 47; 32; 230; 179; 168; 233; 135; 138]%N) 3 4 true; mkTok 7 "@lengthOf(" 4 4 false; mkTok 42 "asx" 4 15 false; mkTok 6 ")" 4 18 false; mkTok 36 "repeat" 4 20 false; mkTok 12 "char[" 4 27 false; mkTok 30 "007" 4 33 false; mkTok 13 "]" 5 0 false; mkTok 42 "matchKey" 5 2 false; mkTok 40 "," 5 11 false; mkTok 16 "char[]" 5 12 false; mkTok 42 "MetaDataX" 6 0 false; mkTok 7 "@lengthOf(" 6 10 false; mkTok 42 "Foo" 7 0 false; mkTok 6 ")" 7 3 false; mkTok 43 (string_of_bytes [96; 116; 97; 98; 9; 104; 101; 114; 101; 96]%N) 7 5 false; mkTok 40 "," 7 16 false; mkTok 36 "repeat" 8 0 false; mkTok 23 "uint64" 8 7 false; mkTok 44 (string_of_bytes [47; 47; 9; 116]%N) 8 14 true; mkTok 42 "f32a" 9 0 false; mkTok 40 "," 10 0 false; mkTok 3 "}" 10 2 false; mkTok 0 "<EOF>" 10 3 false] (mkPacket (mkPtok 34 "root" 1 0 0) (Some (mkPtok 3 "}" 10 2 26)) [(DPacket (mkPacketDef (mkSpan (mkPtok 34 "root" 1 0 0) (mkPtok 3 "}" 10 2 26)) (Some (mkPtok 34 "root" 1 0 0)) (mkPtok 35 "packet" 1 5 1) (mkPtok 42 "BodyLength" 1 12 2) (mkPtok 2 "{" 2 4 3) [(mkFieldWithAttr (mkSpan (mkPtok 7 "@lengthOf(" 4 4 5) (mkPtok 40 "," 5 11 13)) [(FALengthOf (mkSpan (mkPtok 7 "@lengthOf(" 4 4 5) (mkPtok 6 ")" 4 18 7)) (mkLengthOf (mkSpan (mkPtok 7 "@lengthOf(" 4 4 5) (mkPtok 6 ")" 4 18 7)) (mkPtok 7 "@lengthOf(" 4 4 5) (mkPtok 42 "asx" 4 15 6) (mkPtok 6 ")" 4 18 7)))] (MetaField (mkSpan (mkPtok 36 "repeat" 4 20 8) (mkPtok 40 "," 5 11 13)) (Some (mkPtok 36 "repeat" 4 20 8)) (mkMetaDecl (mkSpan (mkPtok 12 "char[" 4 27 9) (mkPtok 40 "," 5 11 13)) (TyFixed (mkSpan (mkPtok 12 "char[" 4 27 9) (mkPtok 13 "]" 5 0 11)) (mkFixedString (mkSpan (mkPtok 12 "char[" 4 27 9) (mkPtok 13 "]" 5 0 11)) (mkPtok 12 "char[" 4 27 9) (mkPtok 30 "007" 4 33 10) (mkPtok 13 "]" 5 0 11))) (mkPtok 42 "matchKey" 5 2 12) None (mkPtok 40 "," 5 11 13)))); (mkFieldWithAttr (mkSpan (mkPtok 16 "char[]" 5 12 14) (mkPtok 40 "," 7 16 20)) [] (LengthField (mkSpan (mkPtok 16 "char[]" 5 12 14) (mkPtok 40 "," 7 16 20)) (mkLengthFieldDecl (mkSpan (mkPtok 16 "char[]" 5 12 14) (mkPtok 40 "," 7 16 20)) (Some (TyDynamic (mkSpan (mkPtok 16 "char[]" 5 12 14) (mkPtok 16 "char[]" 5 12 14)) (mkDynamicString (mkSpan (mkPtok 16 "char[]" 5 12 14) (mkPtok 16 "char[]" 5 12 14)) (mkPtok 16 "char[]" 5 12 14)))) (mkPtok 42 "MetaDataX" 6 0 15) (mkLengthOf (mkSpan (mkPtok 7 "@lengthOf(" 6 10 16) (mkPtok 6 ")" 7 3 18)) (mkPtok 7 "@lengthOf(" 6 10 16) (mkPtok 42 "Foo" 7 0 17) (mkPtok 6 ")" 7 3 18)) (Some (mkPtok 43 (string_of_bytes [96; 116; 97; 98; 9; 104; 101; 114; 101; 96]%N) 7 5 19)) (mkPtok 40 "," 7 16 20)))); (mkFieldWithAttr (mkSpan (mkPtok 36 "repeat" 8 0 21) (mkPtok 40 "," 10 0 25)) [] (MetaField (mkSpan (mkPtok 36 "repeat" 8 0 21) (mkPtok 40 "," 10 0 25)) (Some (mkPtok 36 "repeat" 8 0 21)) (mkMetaDecl (mkSpan (mkPtok 23 "uint64" 8 7 22) (mkPtok 40 "," 10 0 25)) (TyBasic (mkSpan (mkPtok 23 "uint64" 8 7 22) (mkPtok 23 "uint64" 8 7 22)) (mkBasicType (mkSpan (mkPtok 23 "uint64" 8 7 22) (mkPtok 23 "uint64" 8 7 22)) (mkPtok 23 "uint64" 8 7 22))) (mkPtok 42 "f32a" 9 0 24) None (mkPtok 40 "," 10 0 25))))] (mkPtok 3 "}" 10 2 26)))])).
-Eval vm_compute in ("<<<M163>>>" ++ check (runes_of_ascii "packet asx {
-    }
-    // packet A { u8 x, }
-    options
-    { options1
-= float64 leftPad
-=true ; MetaDataX =char[00] ; roots=false }// " ++ [128512]%N ++ runes_of_ascii " emoji
-packet string_{
-    }
-
-")).
-Eval vm_compute in ("<<<M173>>>" ++ check (runes_of_ascii "packet A {
-@lengthOf(
-    lengthOf)int16 packetx // trailing space 
-@calculatedFrom(""1"" )
-    , repeat u64 Packet`
-` , match trueish as /// triple
-roots { 3
-: A ,""x y""
-// " ++ [27880; 37322]%N ++ runes_of_ascii "
-//
-:
-BodyLength
-    //
-    ,
-    42:Foo  , },
-} packet As	{
-    msg_type @lengthOf(
-    /// triple
-    u )
-    , }root packet
-    zchar
-    {i8i8 i8i8
-`
-` ,zchar
-    {int8	Foo
-`a\`  , },
-    f32 pack @lengthOf(
-crc
-// packet A { u8 x, }
-// c
-) , @calculatedFrom( ""{,}""	) // " ++ [27880; 37322]%N ++ runes_of_ascii "
-match crc as
-roots { 65535 : int ""packet""
-:  float ,00 : zchar
-// packet A { u8 x, }
-// `tick` ""quote"" 'q'
-, [ ""x y""] :
-options1, ""it's""
-:x, } , @lengthOf(
-Packet)
-    match x
-    //	t
-    as As{ //	t
-0: lengthOf
-,
-    //	t
-    3 : pack , ""it's""  : x_y_z ,
-""a\""b"" : metadata
-} , uint16
-    i8i8, } // a // b")).
-Eval vm_compute in ("<<<M183>>>" ++ check (runes_of_ascii "
-packet Foo {	} packet MetaDataX
-    {char[]	Logon
-// trailing space 
-//
-,  }root packet MetaDataX { match Z9_ as zchar{
-7 : zchar , } , }")).
-Eval vm_compute in ("<<<M193>>>" ++ check (runes_of_ascii "packet Packet { @tag(	65535 ) @leftPad ( ' '
-    )
-@tag( 255
-    /// triple
-    )
-    uint8
-len
-    @lengthOf( T), int32 u8x , @lengthOf( rootA )float32 i64_
-`u8 x,` , } packet// c
-int { repeat	i8i8
-{lengthOf
-    @lengthOf( int)`line1
-line2`
-, string	falsey `
-` ,uint16
-// `tick` ""quote"" 'q'
-// trailing space 
-roots
-@lengthOf(
-charz), } , }options
-    { Foo = ' '	len  = """ ++ [128512]%N ++ runes_of_ascii """
-; chars= u64 ;
-//x
-//
-uint8x // a // b
-=	""" ++ [128512]%N ++ runes_of_ascii """
-    // trailing space 
-    ;metadata= ' ' ; }
-    // " ++ [27880; 37322]%N ++ runes_of_ascii "
-    MetaData Header
-    // " ++ [27880; 37322]%N ++ runes_of_ascii "
-    {
-i16
-    matchKey,Packet Packet `u8 x,`  , }packet u128 {uint8x
-@lengthOf(charz) `u8 x,`	, }
-")).
-Eval vm_compute in ("<<<M203>>>" ++ check (runes_of_ascii "/// triple
-MetaData roots
-    { string
-Z9_ `say ""hi""`
-    //
-    ,o
-    tag ,char[4294967296 // " ++ [128512]%N ++ runes_of_ascii " emoji
-] body `crlf
-line`
-,
-    _x lengthOf `tab	here` , } options { repeatCount	= ""x y"" ; T = """ ++ [28040; 24687]%N ++ runes_of_ascii """ }
-    /// triple
-    packet int{ @calculatedFrom( ""CRC32"" )int64 f32a, roots @calculatedFrom( ""it's"" )`` ,@calculatedFrom(""a\\"" )@tag( 007 ) char[ 255//	t
-] crc @lengthOf(packetx )
-    ,
-match
-    Pad as string_ { [""\" ++ [233]%N ++ runes_of_ascii """,3
-    // " ++ [27880; 37322]%N ++ runes_of_ascii "
-    ] : lengthOf  ,[ 42
-    ]:
-// packet A { u8 x, }
-// packet A { u8 x, }
-body ,
-7 : i8i8
-    ,0123456789:
-options1
-,//x
-[ 00 ] : Z9_ ,  }// @lengthOf(
-,float
-,// " ++ [27880; 37322]%N ++ runes_of_ascii "
-} MetaData zchar
-    {
-    zchar[
-3 ]
-    options1
+Eval vm_compute in ("<<<T13>>>" ++ terms [mkTok 1 "options" 1 0 false; mkTok 2 "{" 2 0 false; mkTok 42 "matchKey" 2 2 false; mkTok 4 "=" 2 10 false; mkTok 31 """x y""" 2 12 false; mkTok 41 ";" 2 17 false; mkTok 42 "len" 2 18 false; mkTok 4 "=" 2 22 false; mkTok 33 "'\x00'" 3 0 false; mkTok 3 "}" 3 7 false; mkTok 0 "<EOF>" 4 0 false] (mkPacket (mkPtok 1 "options" 1 0 0) (Some (mkPtok 3 "}" 3 7 9)) [(DOption (mkOptionDef (mkSpan (mkPtok 1 "options" 1 0 0) (mkPtok 3 "}" 3 7 9)) (mkPtok 1 "options" 1 0 0) (mkPtok 2 "{" 2 0 1) [(mkOptionDecl (mkSpan (mkPtok 42 "matchKey" 2 2 2) (mkPtok 41 ";" 2 17 5)) (mkPtok 42 "matchKey" 2 2 2) (mkPtok 4 "=" 2 10 3) (VString (mkSpan (mkPtok 31 """x y""" 2 12 4) (mkPtok 31 """x y""" 2 12 4)) (mkPtok 31 """x y""" 2 12 4)) (Some (mkPtok 41 ";" 2 17 5))); (mkOptionDecl (mkSpan (mkPtok 42 "len" 2 18 6) (mkPtok 33 "'\x00'" 3 0 8)) (mkPtok 42 "len" 2 18 6) (mkPtok 4 "=" 2 22 7) (VPaddingChar (mkSpan (mkPtok 33 "'\x00'" 3 0 8) (mkPtok 33 "'\x00'" 3 0 8)) (mkPtok 33 "'\x00'" 3 0 8)) None)] (mkPtok 3 "}" 3 7 9)))])).
+Eval vm_compute in ("<<<M23>>>" ++ check (runes_of_ascii "root packet x_y_z
+{ int32 lengthOf
     `line1
-line2` ,}  packet asx
-{ zchar[
-    42// " ++ [128512]%N ++ runes_of_ascii " emoji
-]
-falsey ,	@calculatedFrom(
-""1""
-)
-repeat string As `" ++ [233]%N ++ runes_of_ascii "`, char[] trueish
-    , int32 Header , repeat  stringy
-`crlf
-line`, string
-x_y_z,
-f64 T
-//x
-// `tick` ""quote"" 'q'
-, uint8x
-@lengthOf( charz
-)
-    `a\` , }")).
-Eval vm_compute in ("<<<M213>>>" ++ check (runes_of_ascii "  root packet// " ++ [128512]%N ++ runes_of_ascii " emoji
-o
-    {
-    @calculatedFrom( ""a\""b"" //x
-) repeat crc ,	@tag( 10  )
-x_y_z, }
-")).
-Eval vm_compute in ("<<<M223>>>" ++ check (runes_of_ascii "  root packet charz{}")).
-Eval vm_compute in ("<<<T223>>>" ++ terms [mkTok 34 "root" 1 2 false; mkTok 35 "packet" 1 7 false; mkTok 42 "charz" 1 14 false; mkTok 2 "{" 1 19 false; mkTok 3 "}" 1 20 false; mkTok 0 "<EOF>" 1 21 false] (mkPacket (mkPtok 34 "root" 1 2 0) (Some (mkPtok 3 "}" 1 20 4)) [(DPacket (mkPacketDef (mkSpan (mkPtok 34 "root" 1 2 0) (mkPtok 3 "}" 1 20 4)) (Some (mkPtok 34 "root" 1 2 0)) (mkPtok 35 "packet" 1 7 1) (mkPtok 42 "charz" 1 14 2) (mkPtok 2 "{" 1 19 3) [] (mkPtok 3 "}" 1 20 4)))])).
-Eval vm_compute in ("<<<M233>>>" ++ check (runes_of_ascii "root
-packet Logon	{/// triple
-@calculatedFrom(
-    ""`tick`"" ) @rightPad ( ' '  )
-    @tag(
-    42 ) //	t
-char[ 3 ]
-trueish  @lengthOf(
-matchKey
-    // @lengthOf(
-    ) `" ++ [233]%N ++ runes_of_ascii "` ,}
-")).
-Eval vm_compute in ("<<<M243>>>" ++ check (runes_of_ascii "options
-{ f32a= zchar[3
-//
-// c
-]
-// " ++ [128512]%N ++ runes_of_ascii " emoji
-//	t
-}	packet falsey
-{
-Z9_ ,body
-    @calculatedFrom( //
-""\n""
-// packet A { u8 x, }
-// c
-)
-    ,} options { }
-")).
-Eval vm_compute in ("<<<M253>>>" ++ check (runes_of_ascii "
-packet/// triple
-packetx {
-} // " ++ [27880; 37322]%N)).
-Eval vm_compute in ("<<<M263>>>" ++ check (runes_of_ascii "options{
-} packet matchKey { repeat
-int32 packetx, zchar[
-    10
-    //x
-    ] Packet
-    ,@lengthOf(string_
-) @tag( 007 ) @tag( 255 )// @lengthOf(
-Z9_ @calculatedFrom( """ ++ [28040; 24687]%N ++ runes_of_ascii """ ) ,
-@lengthOf(
-// `tick` ""quote"" 'q'
-// `tick` ""quote"" 'q'
-asx
-) @calculatedFrom(
-    // trailing space 
-    ""CRC32"" )
-string
-_x,
-    @calculatedFrom( """"
-    ) @lengthOf(
-trueish)x , @leftPad (
-)
-// `tick` ""quote"" 'q'
+line2` , }packet
+    T{ u16  i64_	, } packet
+Z9_ { repeat string//
+trueish // `tick` ""quote"" 'q'
+`doc`,
+} options
 /// triple
-zchar[ 4294967296 ]
-    float , @lengthOf(
-    // trailing space 
-    u128
-    )//	t
-Logon{repeat char[]x `u8 x,`, // packet A { u8 x, }
-} , @tag(
-1) f64 Z9_ ,
-u32 i64_
-`crlf
-line`  , @rightPad
-// `tick` ""quote"" 'q'
-// @lengthOf(
-( '\x00'	) @leftPad (	) repeat float32
-uint8x , }
-root packet
-u128
-    // `tick` ""quote"" 'q'
-    { i32
-    charz //	t
-@lengthOf( crc
-) `u8 x,`  ,// a // b
-@tag(
-65535 // " ++ [128512]%N ++ runes_of_ascii " emoji
-)// trailing space 
-@lengthOf( f32a ) repeat// " ++ [27880; 37322]%N ++ runes_of_ascii "
-Logon
-`{ , }`
-    , @rightPad (
-    ' ' ) @tag(65535
-)
-    repeat trueish , i32
-lengthOf
-    // `tick` ""quote"" 'q'
-    , }")).
-Eval vm_compute in ("<<<M273>>>" ++ check (runes_of_ascii "MetaData u128 { uint8x msg_type `line1
-line2`	, }")).
-Eval vm_compute in ("<<<M283>>>" ++ check (@nil rune)).
-Eval vm_compute in ("<<<M293>>>" ++ check (runes_of_ascii "
-MetaData matchKey { i16
-lengthOf, int16
-    asx `it's`
+// 50% %s
+{repeatCount
+    ='0' //	t
+;charz  =
+    i16
+; tag= ""packet""}
+
+")).
+Eval vm_compute in ("<<<M33>>>" ++ check (runes_of_ascii "root packet MetaDataX { } packet  uint8x
+{crc @calculatedFrom( ""a	b"") `it's` , repeat
+    string
+zchar `" ++ [233]%N ++ runes_of_ascii "`
+    // a // b
     ,
-    chars metadata `
-` , char[ 00 ] u128 ,// " ++ [128512]%N ++ runes_of_ascii " emoji
-zchar[ 007 ] falsey
-,  uint64 packetx
-, }
-    packet string_
+    match
+lengthOf as u { """"
+// c
+// `tick` ""quote"" 'q'
+: zchar ,
+}, @tag(  3 ) repeat  string f32a `it's` ,}
+")).
+Eval vm_compute in ("<<<M43>>>" ++ check (runes_of_ascii "
+packet body{ @lengthOf(  zchar
+)
+f32
+    i8i8 , uint8x zchar `u8 x,` ,/// triple
+}packet pack
+{ @lengthOf( u ) /// triple
+char[]
+    charz// a // b
+@lengthOf(
+    o) , f32a @calculatedFrom( ""packet"") ,@lengthOf( metadata
+    )repeat int32 repeatCount
+    ,@leftPad(
+'\x00' ) char[] chars	@lengthOf( roots )
+, @calculatedFrom(""\n"" ) matchKey
+    //	t
+    ,
+    }
+packet
+u8x { @calculatedFrom( ""{,}"" )uint8 string_ @lengthOf( trueish ) , Header {  char[] lengthOf
+`u8 x,` , }
+    // " ++ [128512]%N ++ runes_of_ascii " emoji
+    ,// 50% %s
+i16 u `say ""hi""`	, }
+// " ++ [27880; 37322]%N ++ runes_of_ascii "
+")).
+Eval vm_compute in ("<<<M53>>>" ++ check (runes_of_ascii "root
+packet
+len { int16//	t
+falsey @lengthOf( _x
+)	, } // " ++ [128512]%N ++ runes_of_ascii " emoji")).
+Eval vm_compute in ("<<<M63>>>" ++ check (runes_of_ascii "
+MetaData trueish { len packetx
+`" ++ [28040; 24687; 31867; 22411]%N ++ runes_of_ascii "` , lengthOf len
+// a // b
+// trailing space 
+,zchar[
+7
+    ]	T
+`{ , }` , string_ // packet A { u8 x, }
+f32a , len Z9_
+`` , f64 options1 ,}	options
+    {	u8x=
+    string// 50% %s
+;}")).
+Eval vm_compute in ("<<<M73>>>" ++ check (runes_of_ascii "packet // packet A { u8 x, }
+uint8x {
+calculatedFrom
     {
-}root
-packet stringy{u64 packetx	@lengthOf( falsey // @lengthOf(
-) `crlf
-line` , falsey options1
-    , repeat char[] calculatedFrom , @rightPad ( '\x00' )
-i64 // c
-charz
-    @lengthOf(
-    x_y_z )
-    `u8 x,`,
+repeat
+options1{ char[42 ] packetx ,	len {
+repeat	_x `
+` , int8 rootA // 50% %s
+@calculatedFrom(  ""abc"") `" ++ [28040; 24687; 31867; 22411]%N ++ runes_of_ascii "`, MetaDataX // trailing space 
+@calculatedFrom( ""\n"" )
+    `
+`
+    , match
+leftPad
+as zchar {
+[
+""// no comment""
+//
+// " ++ [27880; 37322]%N ++ runes_of_ascii "
+,0	, """ ++ [128512]%N ++ runes_of_ascii """ ,/// triple
+""" ++ [28040; 24687]%N ++ runes_of_ascii """ ] : MetaDataX ,
+[ """"] :  stringy ,42
+: calculatedFrom ,  65535
+: options1
+    /// triple
+    ,
+//	t
+// " ++ [128512]%N ++ runes_of_ascii " emoji
+} ,
+},	f32 MetaDataX ,//x
+} , lengthOf
+    Foo , } , @rightPad (
+' '
+) //
+char[]options1 @calculatedFrom( ""a\""b"" ) , // 50% %s
+@rightPad
+(' '
+) @tag(	00)  match matchKey
+    as	msg_type { [ ""1"" ] : tag} , zchar[ 00 ]  a1 @lengthOf(asx )
+``
+    ,
+char[ 007 ]
+    A
+    , //	t
+Pad
+, @leftPad ( // @lengthOf(
+'\x00' ) @calculatedFrom( ""a\\"" )
+@calculatedFrom( ""{,}"" )  repeat	trueish {
+MetaDataX@lengthOf(zchar ) ,
+} ,
+}
+")).
+Eval vm_compute in ("<<<M83>>>" ++ check (runes_of_ascii "options
+    {f32a	= zchar[ 65535 ]	;
+//	t
+// trailing space 
+Logon
+    = // `tick` ""quote"" 'q'
+""1"" x_y_z /// triple
+=65535 u=
+    ""// no comment""
+    ; A = ""a\\""
+; } //	t
+root packet BodyLength { match	crc
+as charz { """ ++ [128512]%N ++ runes_of_ascii """ : matchKey, 0123456789 :
+T, ""it's"" // " ++ [27880; 37322]%N ++ runes_of_ascii "
+: f32a,
+7
+// `tick` ""quote"" 'q'
+// a // b
+: body , [ 7 ]  : x_y_z, }
+,  }
+    MetaData
+    string_ { len metadata `line1
+line2` ,
+    f64 calculatedFrom ,x_y_z x
+, char[ 0123456789] Header  , }
+")).
+Eval vm_compute in ("<<<T83>>>" ++ terms [mkTok 1 "options" 1 0 false; mkTok 2 "{" 2 4 false; mkTok 42 "f32a" 2 5 false; mkTok 4 "=" 2 10 false; mkTok 14 "zchar[" 2 12 false; mkTok 30 "65535" 2 19 false; mkTok 13 "]" 2 25 false; mkTok 41 ";" 2 27 false; mkTok 44 (string_of_bytes [47; 47; 9; 116]%N) 3 0 true; mkTok 44 "// trailing space " 4 0 true; mkTok 42 "Logon" 5 0 false; mkTok 4 "=" 6 4 false; mkTok 44 "// `tick` ""quote"" 'q'" 6 6 true; mkTok 31 """1""" 7 0 false; mkTok 42 "x_y_z" 7 4 false; mkTok 44 "/// triple" 7 10 true; mkTok 4 "=" 8 0 false; mkTok 30 "65535" 8 1 false; mkTok 42 "u" 8 7 false; mkTok 4 "=" 8 8 false; mkTok 31 """// no comment""" 9 4 false; mkTok 41 ";" 10 4 false; mkTok 42 "A" 10 6 false; mkTok 4 "=" 10 8 false; mkTok 31 """a\\""" 10 10 false; mkTok 41 ";" 11 0 false; mkTok 3 "}" 11 2 false; mkTok 44 (string_of_bytes [47; 47; 9; 116]%N) 11 4 true; mkTok 34 "root" 12 0 false; mkTok 35 "packet" 12 5 false; mkTok 42 "BodyLength" 12 12 false; mkTok 2 "{" 12 23 false; mkTok 38 "match" 12 25 false; mkTok 42 "crc" 12 31 false; mkTok 17 "as" 13 0 false; mkTok 42 "charz" 13 3 false; mkTok 2 "{" 13 9 false; mkTok 31 (string_of_bytes [34; 240; 159; 152; 128; 34]%N) 13 11 false; mkTok 39 ":" 13 15 false; mkTok 42 "matchKey" 13 17 false; mkTok 40 "," 13 25 false; mkTok 30 "0123456789" 13 27 false; mkTok 39 ":" 13 38 false; mkTok 42 "T" 14 0 false; mkTok 40 "," 14 1 false; mkTok 31 """it's""" 14 3 false; mkTok 44 (string_of_bytes [47; 47; 32; 230; 179; 168; 233; 135; 138]%N) 14 10 true; mkTok 39 ":" 15 0 false; mkTok 42 "f32a" 15 2 false; mkTok 40 "," 15 6 false; mkTok 30 "7" 16 0 false; mkTok 44 "// `tick` ""quote"" 'q'" 17 0 true; mkTok 44 "// a // b" 18 0 true; mkTok 39 ":" 19 0 false; mkTok 42 "body" 19 2 false; mkTok 40 "," 19 7 false; mkTok 18 "[" 19 9 false; mkTok 30 "7" 19 11 false; mkTok 13 "]" 19 13 false; mkTok 39 ":" 19 16 false; mkTok 42 "x_y_z" 19 18 false; mkTok 40 "," 19 23 false; mkTok 3 "}" 19 25 false; mkTok 40 "," 20 0 false; mkTok 3 "}" 20 3 false; mkTok 37 "MetaData" 21 4 false; mkTok 42 "string_" 22 4 false; mkTok 2 "{" 22 12 false; mkTok 42 "len" 22 14 false; mkTok 42 "metadata" 22 18 false; mkTok 43 (string_of_bytes [96; 108; 105; 110; 101; 49; 10; 108; 105; 110; 101; 50; 96]%N) 22 27 false; mkTok 40 "," 23 7 false; mkTok 29 "f64" 24 4 false; mkTok 42 "calculatedFrom" 24 8 false; mkTok 40 "," 24 23 false; mkTok 42 "x_y_z" 24 24 false; mkTok 42 "x" 24 30 false; mkTok 40 "," 25 0 false; mkTok 12 "char[" 25 2 false; mkTok 30 "0123456789" 25 8 false; mkTok 13 "]" 25 18 false; mkTok 42 "Header" 25 20 false; mkTok 40 "," 25 28 false; mkTok 3 "}" 25 30 false; mkTok 0 "<EOF>" 26 0 false] (mkPacket (mkPtok 1 "options" 1 0 0) (Some (mkPtok 3 "}" 25 30 83)) [(DOption (mkOptionDef (mkSpan (mkPtok 1 "options" 1 0 0) (mkPtok 3 "}" 11 2 26)) (mkPtok 1 "options" 1 0 0) (mkPtok 2 "{" 2 4 1) [(mkOptionDecl (mkSpan (mkPtok 42 "f32a" 2 5 2) (mkPtok 41 ";" 2 27 7)) (mkPtok 42 "f32a" 2 5 2) (mkPtok 4 "=" 2 10 3) (VType (mkSpan (mkPtok 14 "zchar[" 2 12 4) (mkPtok 13 "]" 2 25 6)) (TyFixed (mkSpan (mkPtok 14 "zchar[" 2 12 4) (mkPtok 13 "]" 2 25 6)) (mkFixedString (mkSpan (mkPtok 14 "zchar[" 2 12 4) (mkPtok 13 "]" 2 25 6)) (mkPtok 14 "zchar[" 2 12 4) (mkPtok 30 "65535" 2 19 5) (mkPtok 13 "]" 2 25 6)))) (Some (mkPtok 41 ";" 2 27 7))); (mkOptionDecl (mkSpan (mkPtok 42 "Logon" 5 0 10) (mkPtok 31 """1""" 7 0 13)) (mkPtok 42 "Logon" 5 0 10) (mkPtok 4 "=" 6 4 11) (VString (mkSpan (mkPtok 31 """1""" 7 0 13) (mkPtok 31 """1""" 7 0 13)) (mkPtok 31 """1""" 7 0 13)) None); (mkOptionDecl (mkSpan (mkPtok 42 "x_y_z" 7 4 14) (mkPtok 30 "65535" 8 1 17)) (mkPtok 42 "x_y_z" 7 4 14) (mkPtok 4 "=" 8 0 16) (VDigits (mkSpan (mkPtok 30 "65535" 8 1 17) (mkPtok 30 "65535" 8 1 17)) (mkPtok 30 "65535" 8 1 17)) None); (mkOptionDecl (mkSpan (mkPtok 42 "u" 8 7 18) (mkPtok 41 ";" 10 4 21)) (mkPtok 42 "u" 8 7 18) (mkPtok 4 "=" 8 8 19) (VString (mkSpan (mkPtok 31 """// no comment""" 9 4 20) (mkPtok 31 """// no comment""" 9 4 20)) (mkPtok 31 """// no comment""" 9 4 20)) (Some (mkPtok 41 ";" 10 4 21))); (mkOptionDecl (mkSpan (mkPtok 42 "A" 10 6 22) (mkPtok 41 ";" 11 0 25)) (mkPtok 42 "A" 10 6 22) (mkPtok 4 "=" 10 8 23) (VString (mkSpan (mkPtok 31 """a\\""" 10 10 24) (mkPtok 31 """a\\""" 10 10 24)) (mkPtok 31 """a\\""" 10 10 24)) (Some (mkPtok 41 ";" 11 0 25)))] (mkPtok 3 "}" 11 2 26))); (DPacket (mkPacketDef (mkSpan (mkPtok 34 "root" 12 0 28) (mkPtok 3 "}" 20 3 64)) (Some (mkPtok 34 "root" 12 0 28)) (mkPtok 35 "packet" 12 5 29) (mkPtok 42 "BodyLength" 12 12 30) (mkPtok 2 "{" 12 23 31) [(mkFieldWithAttr (mkSpan (mkPtok 38 "match" 12 25 32) (mkPtok 40 "," 20 0 63)) [] (MatchField (mkSpan (mkPtok 38 "match" 12 25 32) (mkPtok 40 "," 20 0 63)) (mkMatchFieldDecl (mkSpan (mkPtok 38 "match" 12 25 32) (mkPtok 3 "}" 19 25 62)) (mkPtok 38 "match" 12 25 32) (mkPtok 42 "crc" 12 31 33) (mkPtok 17 "as" 13 0 34) (mkPtok 42 "charz" 13 3 35) (mkPtok 2 "{" 13 9 36) [(mkMatchPair (mkSpan (mkPtok 31 (string_of_bytes [34; 240; 159; 152; 128; 34]%N) 13 11 37) (mkPtok 40 "," 13 25 40)) (MKString (mkPtok 31 (string_of_bytes [34; 240; 159; 152; 128; 34]%N) 13 11 37)) (mkPtok 39 ":" 13 15 38) (mkPtok 42 "matchKey" 13 17 39) (Some (mkPtok 40 "," 13 25 40))); (mkMatchPair (mkSpan (mkPtok 30 "0123456789" 13 27 41) (mkPtok 40 "," 14 1 44)) (MKDigits (mkPtok 30 "0123456789" 13 27 41)) (mkPtok 39 ":" 13 38 42) (mkPtok 42 "T" 14 0 43) (Some (mkPtok 40 "," 14 1 44))); (mkMatchPair (mkSpan (mkPtok 31 """it's""" 14 3 45) (mkPtok 40 "," 15 6 49)) (MKString (mkPtok 31 """it's""" 14 3 45)) (mkPtok 39 ":" 15 0 47) (mkPtok 42 "f32a" 15 2 48) (Some (mkPtok 40 "," 15 6 49))); (mkMatchPair (mkSpan (mkPtok 30 "7" 16 0 50) (mkPtok 40 "," 19 7 55)) (MKDigits (mkPtok 30 "7" 16 0 50)) (mkPtok 39 ":" 19 0 53) (mkPtok 42 "body" 19 2 54) (Some (mkPtok 40 "," 19 7 55))); (mkMatchPair (mkSpan (mkPtok 18 "[" 19 9 56) (mkPtok 40 "," 19 23 61)) (MKList (mkKeyList (mkSpan (mkPtok 18 "[" 19 9 56) (mkPtok 13 "]" 19 13 58)) (mkPtok 18 "[" 19 9 56) (mkPtok 30 "7" 19 11 57) [] (mkPtok 13 "]" 19 13 58))) (mkPtok 39 ":" 19 16 59) (mkPtok 42 "x_y_z" 19 18 60) (Some (mkPtok 40 "," 19 23 61)))] (mkPtok 3 "}" 19 25 62)) (mkPtok 40 "," 20 0 63)))] (mkPtok 3 "}" 20 3 64))); (DMeta (mkMetaDef (mkSpan (mkPtok 37 "MetaData" 21 4 65) (mkPtok 3 "}" 25 30 83)) (mkPtok 37 "MetaData" 21 4 65) (mkPtok 42 "string_" 22 4 66) (mkPtok 2 "{" 22 12 67) [(MIRef (mkRefMetaDecl (mkSpan (mkPtok 42 "len" 22 14 68) (mkPtok 40 "," 23 7 71)) (mkPtok 42 "len" 22 14 68) (mkPtok 42 "metadata" 22 18 69) (Some (mkPtok 43 (string_of_bytes [96; 108; 105; 110; 101; 49; 10; 108; 105; 110; 101; 50; 96]%N) 22 27 70)) (mkPtok 40 "," 23 7 71))); (MIDecl (mkMetaDecl (mkSpan (mkPtok 29 "f64" 24 4 72) (mkPtok 40 "," 24 23 74)) (TyBasic (mkSpan (mkPtok 29 "f64" 24 4 72) (mkPtok 29 "f64" 24 4 72)) (mkBasicType (mkSpan (mkPtok 29 "f64" 24 4 72) (mkPtok 29 "f64" 24 4 72)) (mkPtok 29 "f64" 24 4 72))) (mkPtok 42 "calculatedFrom" 24 8 73) None (mkPtok 40 "," 24 23 74))); (MIRef (mkRefMetaDecl (mkSpan (mkPtok 42 "x_y_z" 24 24 75) (mkPtok 40 "," 25 0 77)) (mkPtok 42 "x_y_z" 24 24 75) (mkPtok 42 "x" 24 30 76) None (mkPtok 40 "," 25 0 77))); (MIDecl (mkMetaDecl (mkSpan (mkPtok 12 "char[" 25 2 78) (mkPtok 40 "," 25 28 82)) (TyFixed (mkSpan (mkPtok 12 "char[" 25 2 78) (mkPtok 13 "]" 25 18 80)) (mkFixedString (mkSpan (mkPtok 12 "char[" 25 2 78) (mkPtok 13 "]" 25 18 80)) (mkPtok 12 "char[" 25 2 78) (mkPtok 30 "0123456789" 25 8 79) (mkPtok 13 "]" 25 18 80))) (mkPtok 42 "Header" 25 20 81) None (mkPtok 40 "," 25 28 82)))] (mkPtok 3 "}" 25 30 83)))])).
+Eval vm_compute in ("<<<M93>>>" ++ check (runes_of_ascii "// c
+root /// triple
+packet Pad
+    {
+    }
+")).
+Eval vm_compute in ("<<<M103>>>" ++ check (runes_of_ascii "packet body
+    { zchar[ 4294967296 ] uint8x
+@lengthOf(
+leftPad )
+,
+@tag( 1	) // " ++ [128512]%N ++ runes_of_ascii " emoji
+@tag( 3 ) match i8i8	as string_ { [
+""a	b"" ,""1"", 4294967296
+    ,	007 , ""a\\""	, 3	]
+:
+string_ , } , @lengthOf(
+    //	t
+    Foo)match a1 as
+    Pad { 00 :trueish
+, [
+65535 ,
+    0  , ""1"" , ""it's"" ] : uint8x
+    ""CRC32"": A ,  } , u16 matchKey ,o@calculatedFrom(  """ ++ [28040; 24687]%N ++ runes_of_ascii """	), a1 { repeat // packet A { u8 x, }
+i64_ ,} ,}
+")).
+Eval vm_compute in ("<<<M113>>>" ++ check (runes_of_ascii "options {
+body ='\x00' u128 =
+    i16 ; float = // packet A { u8 x, }
+zchar[
+65535 ]
+; Z9_ =
+""// no comment"" trueish
+=// packet A { u8 x, }
+false } // packet A { u8 x, }")).
+Eval vm_compute in ("<<<M123>>>" ++ check (runes_of_ascii "packet stringy { @lengthOf(
+chars) char calculatedFrom
+,
+repeat u8x
+    calculatedFrom`two words` ,	@leftPad ( '\x00') repeat Packet
+    {match Packet as	rootA
+{
+42 : repeatCount
+, // " ++ [128512]%N ++ runes_of_ascii " emoji
+""CRC32"" // packet A { u8 x, }
+: Pad 65535: // trailing space 
+Header, [ // `tick` ""quote"" 'q'
+""// no comment"" ,	007  ]// packet A { u8 x, }
+: Z9_, 00	:body
+    // " ++ [128512]%N ++ runes_of_ascii " emoji
+    , [ ""// no comment"" ,
+    //
+    """ ++ [28040; 24687]%N ++ runes_of_ascii """
+    , 1
+    , // a // b
+42 ,""it's""] :	metadata, }
+    ,zchar[
+    1
+    ] asx@calculatedFrom( ""// no comment"" ) , zchar[ 10 ] u8x
+,
+}, repeat char[ // " ++ [27880; 37322]%N ++ runes_of_ascii "
+0 ] // `tick` ""quote"" 'q'
+falsey,} 	 ")).
+Eval vm_compute in ("<<<M133>>>" ++ check (runes_of_ascii "root packet //
+metadata// " ++ [27880; 37322]%N ++ runes_of_ascii "
+{// 50% %s
+@calculatedFrom( ""1""
+    ) repeat
+    i16 body ,
 // @lengthOf(
+// c
+@calculatedFrom( // 50% %s
+""a	b""// 50% %s
+)
+    char roots `{ , }`	, repeat zchar[10 ]
+    pack// a // b
+`doc` ,
+} //")).
+Eval vm_compute in ("<<<M143>>>" ++ check (runes_of_ascii "root  packet
+options1
+{repeat Foo { T@lengthOf( leftPad)`two words`
+    // a // b
+    ,
+    // packet A { u8 x, }
+    A,Z9_ x`tab	here` , chars
+    `a\`,
+},@calculatedFrom( ""{,}"" ) // a // b
+float32
+    // @lengthOf(
+    T `{ , }`,
+    @lengthOf(
+crc )
+    char[ 10  ]
+    float //	t
+, repeat	char[] rootA
+    , As
+`it's` ,
+i16 zchar `" ++ [233]%N ++ runes_of_ascii "` , }packet a1 { @tag( 4294967296) Header { char[] msg_type@calculatedFrom(
+    """ ++ [128512]%N ++ runes_of_ascii """	) `` , } /// triple
+, char[ 1 ]x, @leftPad (
+'0'
+    )int64 trueish
+, }")).
+Eval vm_compute in ("<<<M153>>>" ++ check (runes_of_ascii "options { options1
+    =
+    // packet A { u8 x, }
+    float64
+    leftPad =
+true ; MetaDataX
+=char[ 00 ] ;roots=false } packet string_{ }
+")).
+Eval vm_compute in ("<<<T153>>>" ++ terms [mkTok 1 "options" 1 0 false; mkTok 2 "{" 1 8 false; mkTok 42 "options1" 1 10 false; mkTok 4 "=" 2 4 false; mkTok 44 "// packet A { u8 x, }" 3 4 true; mkTok 29 "float64" 4 4 false; mkTok 42 "leftPad" 5 4 false; mkTok 4 "=" 5 12 false; mkTok 10 "true" 6 0 false; mkTok 41 ";" 6 5 false; mkTok 42 "MetaDataX" 6 7 false; mkTok 4 "=" 7 0 false; mkTok 12 "char[" 7 1 false; mkTok 30 "00" 7 7 false; mkTok 13 "]" 7 10 false; mkTok 41 ";" 7 12 false; mkTok 42 "roots" 7 13 false; mkTok 4 "=" 7 18 false; mkTok 11 "false" 7 19 false; mkTok 3 "}" 7 25 false; mkTok 35 "packet" 7 27 false; mkTok 42 "string_" 7 34 false; mkTok 2 "{" 7 41 false; mkTok 3 "}" 7 43 false; mkTok 0 "<EOF>" 8 0 false] (mkPacket (mkPtok 1 "options" 1 0 0) (Some (mkPtok 3 "}" 7 43 23)) [(DOption (mkOptionDef (mkSpan (mkPtok 1 "options" 1 0 0) (mkPtok 3 "}" 7 25 19)) (mkPtok 1 "options" 1 0 0) (mkPtok 2 "{" 1 8 1) [(mkOptionDecl (mkSpan (mkPtok 42 "options1" 1 10 2) (mkPtok 29 "float64" 4 4 5)) (mkPtok 42 "options1" 1 10 2) (mkPtok 4 "=" 2 4 3) (VType (mkSpan (mkPtok 29 "float64" 4 4 5) (mkPtok 29 "float64" 4 4 5)) (TyBasic (mkSpan (mkPtok 29 "float64" 4 4 5) (mkPtok 29 "float64" 4 4 5)) (mkBasicType (mkSpan (mkPtok 29 "float64" 4 4 5) (mkPtok 29 "float64" 4 4 5)) (mkPtok 29 "float64" 4 4 5)))) None); (mkOptionDecl (mkSpan (mkPtok 42 "leftPad" 5 4 6) (mkPtok 41 ";" 6 5 9)) (mkPtok 42 "leftPad" 5 4 6) (mkPtok 4 "=" 5 12 7) (VTrue (mkSpan (mkPtok 10 "true" 6 0 8) (mkPtok 10 "true" 6 0 8)) (mkPtok 10 "true" 6 0 8)) (Some (mkPtok 41 ";" 6 5 9))); (mkOptionDecl (mkSpan (mkPtok 42 "MetaDataX" 6 7 10) (mkPtok 41 ";" 7 12 15)) (mkPtok 42 "MetaDataX" 6 7 10) (mkPtok 4 "=" 7 0 11) (VType (mkSpan (mkPtok 12 "char[" 7 1 12) (mkPtok 13 "]" 7 10 14)) (TyFixed (mkSpan (mkPtok 12 "char[" 7 1 12) (mkPtok 13 "]" 7 10 14)) (mkFixedString (mkSpan (mkPtok 12 "char[" 7 1 12) (mkPtok 13 "]" 7 10 14)) (mkPtok 12 "char[" 7 1 12) (mkPtok 30 "00" 7 7 13) (mkPtok 13 "]" 7 10 14)))) (Some (mkPtok 41 ";" 7 12 15))); (mkOptionDecl (mkSpan (mkPtok 42 "roots" 7 13 16) (mkPtok 11 "false" 7 19 18)) (mkPtok 42 "roots" 7 13 16) (mkPtok 4 "=" 7 18 17) (VFalse (mkSpan (mkPtok 11 "false" 7 19 18) (mkPtok 11 "false" 7 19 18)) (mkPtok 11 "false" 7 19 18)) None)] (mkPtok 3 "}" 7 25 19))); (DPacket (mkPacketDef (mkSpan (mkPtok 35 "packet" 7 27 20) (mkPtok 3 "}" 7 43 23)) None (mkPtok 35 "packet" 7 27 20) (mkPtok 42 "string_" 7 34 21) (mkPtok 2 "{" 7 41 22) [] (mkPtok 3 "}" 7 43 23)))])).
+Eval vm_compute in ("<<<M163>>>" ++ check (runes_of_ascii "MetaData A // a // b
+{
+    uint32 T
+`doc` , uint32 BodyLength `{ , }`
+    ,
+    Foo f32a, i32 falsey , }
+    root	packet _x {
+repeat float32 pack  `doc`
+// packet A { u8 x, }
+// packet A { u8 x, }
+,	char[ // @lengthOf(
+3 ] float //
+`` , match x as int{ ""`tick`"" :string_ ,}, repeat
+repeatCount // `tick` ""quote"" 'q'
+asx`say ""hi""` ,
+zchar[
+    10]roots, // 50% %s
+}
+")).
+Eval vm_compute in ("<<<M173>>>" ++ check (@nil rune)).
+Eval vm_compute in ("<<<M183>>>" ++ check (runes_of_ascii "options {	metadata =false
+// packet A { u8 x, }
+// 50% %s
+options1 = f64 a1	= char[]
+    options1 =  zchar[	7 ]
+// @lengthOf(
+// trailing space 
+; } options{ string_ =7
+    // `tick` ""quote"" 'q'
+    ;
+MetaDataX =
+    ""a	b""
+int=
+false ; }")).
+Eval vm_compute in ("<<<M193>>>" ++ check (runes_of_ascii "
+MetaData lengthOf
+    { zchar[ 007
+    ] u8x `u8 x,` // packet A { u8 x, }
+,	char[ 0123456789 ]
+Logon `{ , }`
+    ,
+//
+//
+f64 o  `{ , }`
+, char[
+007 //	t
+]	tag, char stringy// c
+`100% of %d` ,
+Pad uint8x
+    ,}
+/// triple
+")).
+Eval vm_compute in ("<<<M203>>>" ++ check (runes_of_ascii "packet  u128  {
+repeat
+string float `100% of %d`
+    , @tag( 1
+) @tag( // " ++ [27880; 37322]%N ++ runes_of_ascii "
+007	)
+    match pack as i8i8
+{  ""CRC32"" //	t
+:
+trueish 0123456789	: _x ,[00 ,""" ++ [128512]%N ++ runes_of_ascii """, /// triple
+255 , 255
+]	: // trailing space 
+uint8x
+    ,[  ""`tick`""	] :trueish , 7  :
+    i8i8 } , Logon
+, @calculatedFrom(""1"" // packet A { u8 x, }
+) zchar[ 0123456789 ]
+/// triple
+// trailing space 
+trueish @calculatedFrom(""1""// " ++ [128512]%N ++ runes_of_ascii " emoji
+) `u8 x,`	, @leftPad ( )@tag(	7) char[
+// trailing space 
+//	t
+0123456789] BodyLength
 //x
-@lengthOf( rootA )char[] BodyLength `it's`
-, msg_type@calculatedFrom( // trailing space 
-""packet"") ,
-    // " ++ [27880; 37322]%N ++ runes_of_ascii "
-    lengthOf {zchar[
-65535	]tag
+// 50% %s
+@calculatedFrom( ""abc"" /// triple
+)
+    ,	T/// triple
+a1 ,}packet
+Packet {  }
+")).
+Eval vm_compute in ("<<<M213>>>" ++ check (runes_of_ascii "  MetaData
+    int { }
+options{	u8x = 10 }
+")).
+Eval vm_compute in ("<<<M223>>>" ++ check (runes_of_ascii "MetaData
+float { uint8 Foo
+    , zchar[1 ] asx `{ , }`  ,a1 lengthOf , falsey pack `u8 x,` ,
+// " ++ [27880; 37322]%N ++ runes_of_ascii "
+// packet A { u8 x, }
+metadata Packet ,falsey // packet A { u8 x, }
+pack ,
+    }")).
+Eval vm_compute in ("<<<T223>>>" ++ terms [mkTok 37 "MetaData" 1 0 false; mkTok 42 "float" 2 0 false; mkTok 2 "{" 2 6 false; mkTok 20 "uint8" 2 8 false; mkTok 42 "Foo" 2 14 false; mkTok 40 "," 3 4 false; mkTok 14 "zchar[" 3 6 false; mkTok 30 "1" 3 12 false; mkTok 13 "]" 3 14 false; mkTok 42 "asx" 3 16 false; mkTok 43 "`{ , }`" 3 20 false; mkTok 40 "," 3 29 false; mkTok 42 "a1" 3 30 false; mkTok 42 "lengthOf" 3 33 false; mkTok 40 "," 3 42 false; mkTok 42 "falsey" 3 44 false; mkTok 42 "pack" 3 51 false; mkTok 43 "`u8 x,`" 3 56 false; mkTok 40 "," 3 64 false; mkTok 44 (string_of_bytes [47; 47; 32; 230; 179; 168; 233; 135; 138]%N) 4 0 true; mkTok 44 "// packet A { u8 x, }" 5 0 true; mkTok 42 "metadata" 6 0 false; mkTok 42 "Packet" 6 9 false; mkTok 40 "," 6 16 false; mkTok 42 "falsey" 6 17 false; mkTok 44 "// packet A { u8 x, }" 6 24 true; mkTok 42 "pack" 7 0 false; mkTok 40 "," 7 5 false; mkTok 3 "}" 8 4 false; mkTok 0 "<EOF>" 8 5 false] (mkPacket (mkPtok 37 "MetaData" 1 0 0) (Some (mkPtok 3 "}" 8 4 28)) [(DMeta (mkMetaDef (mkSpan (mkPtok 37 "MetaData" 1 0 0) (mkPtok 3 "}" 8 4 28)) (mkPtok 37 "MetaData" 1 0 0) (mkPtok 42 "float" 2 0 1) (mkPtok 2 "{" 2 6 2) [(MIDecl (mkMetaDecl (mkSpan (mkPtok 20 "uint8" 2 8 3) (mkPtok 40 "," 3 4 5)) (TyBasic (mkSpan (mkPtok 20 "uint8" 2 8 3) (mkPtok 20 "uint8" 2 8 3)) (mkBasicType (mkSpan (mkPtok 20 "uint8" 2 8 3) (mkPtok 20 "uint8" 2 8 3)) (mkPtok 20 "uint8" 2 8 3))) (mkPtok 42 "Foo" 2 14 4) None (mkPtok 40 "," 3 4 5))); (MIDecl (mkMetaDecl (mkSpan (mkPtok 14 "zchar[" 3 6 6) (mkPtok 40 "," 3 29 11)) (TyFixed (mkSpan (mkPtok 14 "zchar[" 3 6 6) (mkPtok 13 "]" 3 14 8)) (mkFixedString (mkSpan (mkPtok 14 "zchar[" 3 6 6) (mkPtok 13 "]" 3 14 8)) (mkPtok 14 "zchar[" 3 6 6) (mkPtok 30 "1" 3 12 7) (mkPtok 13 "]" 3 14 8))) (mkPtok 42 "asx" 3 16 9) (Some (mkPtok 43 "`{ , }`" 3 20 10)) (mkPtok 40 "," 3 29 11))); (MIRef (mkRefMetaDecl (mkSpan (mkPtok 42 "a1" 3 30 12) (mkPtok 40 "," 3 42 14)) (mkPtok 42 "a1" 3 30 12) (mkPtok 42 "lengthOf" 3 33 13) None (mkPtok 40 "," 3 42 14))); (MIRef (mkRefMetaDecl (mkSpan (mkPtok 42 "falsey" 3 44 15) (mkPtok 40 "," 3 64 18)) (mkPtok 42 "falsey" 3 44 15) (mkPtok 42 "pack" 3 51 16) (Some (mkPtok 43 "`u8 x,`" 3 56 17)) (mkPtok 40 "," 3 64 18))); (MIRef (mkRefMetaDecl (mkSpan (mkPtok 42 "metadata" 6 0 21) (mkPtok 40 "," 6 16 23)) (mkPtok 42 "metadata" 6 0 21) (mkPtok 42 "Packet" 6 9 22) None (mkPtok 40 "," 6 16 23))); (MIRef (mkRefMetaDecl (mkSpan (mkPtok 42 "falsey" 6 17 24) (mkPtok 40 "," 7 5 27)) (mkPtok 42 "falsey" 6 17 24) (mkPtok 42 "pack" 7 0 26) None (mkPtok 40 "," 7 5 27)))] (mkPtok 3 "}" 8 4 28)))])).
+Eval vm_compute in ("<<<M233>>>" ++ check (runes_of_ascii "
+options
+    // @lengthOf(
+    { } options {  } packet asx {@calculatedFrom(""a\\"") repeat int32
+len	, @calculatedFrom( ""{,}"" ) @lengthOf( zchar
+    // @lengthOf(
+    ) match repeatCount	as f32a {
+    0123456789
+: msg_type, // " ++ [27880; 37322]%N ++ runes_of_ascii "
+4294967296 : pack  , }	, @tag(
+    65535
+    //x
+    )falsey metadata ,match msg_type as pack
+    {[0 ,
+    7
+    ] :
+    f32a,
+    // 50% %s
+    },
+match Foo as Foo
+// 50% %s
+// a // b
+{
+4294967296:options1 , } , }
+packet uint8x	{@rightPad( '0' )
+string A @lengthOf( leftPad)/// triple
 `
-`
+` , } packet
+    rootA {  }
+")).
+Eval vm_compute in ("<<<M243>>>" ++ check (runes_of_ascii "packet
+stringy
+{ @lengthOf( string_
+)matchKey
+    @lengthOf( float
+)
+, @leftPad
+(  '0' ) match i8i8 as x
+    {[65535 , 10 , 4294967296] : repeatCount,""// no comment"" : // 50% %s
+stringy ,
+} , }MetaData repeatCount { u32 metadata, } MetaData	crc {
+repeatCount f32a ``
+    , }")).
+Eval vm_compute in ("<<<M253>>>" ++ check (runes_of_ascii "packet calculatedFrom { @leftPad	( /// triple
+'\x00') match asx as
+x  { 0 :T
+,}, roots Pad
+, @lengthOf( o) packetx { BodyLength { f64 charz ,
+// c
+//x
+Packet  , repeat A {
+Header , } ,repeat
+Pad
+f32a
+    `a\`  , } ,
+    repeat options1 , } ,
+    @leftPad ( ' ' ) repeat packetx { //
+int16 Logon  , } , float32
+    rootA	@calculatedFrom( ""a\\""), char[] u	,
+tag leftPad `doc`
+,@calculatedFrom(	""" ++ [28040; 24687]%N ++ runes_of_ascii """ )
+match roots as trueish
+{[
+    255 ,
+""a\""b""
+    , ""1""
+, ""\n""
+,
+42 , 42  , 65535 ,
+10]
+: u8x,[ // trailing space 
+""""
+, ""CRC32"" ,
+3 ,
+    255, 0123456789 ,
+""packet"", ""a	b""
+, """"
+]
+:leftPad ,
+0123456789  : crc
+    , ""a\""b"" : Header , 1 :string_ 65535	: a1 } , repeat// `tick` ""quote"" 'q'
+crc ,
+    }
+")).
+Eval vm_compute in ("<<<M263>>>" ++ check (runes_of_ascii "packet stringy{ @leftPad ( ) /// triple
+@leftPad// @lengthOf(
+('0' ) string  string_
+, }
+options	{ //x
+}  root packet chars//x
+{ @tag(	1
+    ) @tag( 00 ) // " ++ [128512]%N ++ runes_of_ascii " emoji
+rootA ,@calculatedFrom(
+""abc"" ) x_y_z , repeat chars{ uint8x @calculatedFrom(""CRC32"" ) `// not a comment`
+, match a1
+as
+lengthOf //x
+{ ""// no comment"" //	t
+: // a // b
+packetx ,} , uint64
+    int `100% of %d`
+    ,zchar[42 ]  Packet
+`two words`
     , }
-    , } 	 ")).
-Eval vm_compute in ("<<<T293>>>" ++ terms [mkTok 37 "MetaData" 2 0 false; mkTok 42 "matchKey" 2 9 false; mkTok 2 "{" 2 18 false; mkTok 25 "i16" 2 20 false; mkTok 42 "lengthOf" 3 0 false; mkTok 40 "," 3 8 false; mkTok 25 "int16" 3 10 false; mkTok 42 "asx" 4 4 false; mkTok 43 "`it's`" 4 8 false; mkTok 40 "," 5 4 false; mkTok 42 "chars" 6 4 false; mkTok 42 "metadata" 6 10 false; mkTok 43 (string_of_bytes [96; 10; 96]%N) 6 19 false; mkTok 40 "," 7 2 false; mkTok 12 "char[" 7 4 false; mkTok 30 "00" 7 10 false; mkTok 13 "]" 7 13 false; mkTok 42 "u128" 7 15 false; mkTok 40 "," 7 20 false; mkTok 44 (string_of_bytes [47; 47; 32; 240; 159; 152; 128; 32; 101; 109; 111; 106; 105]%N) 7 21 true; mkTok 14 "zchar[" 8 0 false; mkTok 30 "007" 8 7 false; mkTok 13 "]" 8 11 false; mkTok 42 "falsey" 8 13 false; mkTok 40 "," 9 0 false; mkTok 23 "uint64" 9 3 false; mkTok 42 "packetx" 9 10 false; mkTok 40 "," 10 0 false; mkTok 3 "}" 10 2 false; mkTok 35 "packet" 11 4 false; mkTok 42 "string_" 11 11 false; mkTok 2 "{" 12 4 false; mkTok 3 "}" 13 0 false; mkTok 34 "root" 13 1 false; mkTok 35 "packet" 14 0 false; mkTok 42 "stringy" 14 7 false; mkTok 2 "{" 14 14 false; mkTok 23 "u64" 14 15 false; mkTok 42 "packetx" 14 19 false; mkTok 7 "@lengthOf(" 14 27 false; mkTok 42 "falsey" 14 38 false; mkTok 44 "// @lengthOf(" 14 45 true; mkTok 6 ")" 15 0 false; mkTok 43 (string_of_bytes [96; 99; 114; 108; 102; 13; 10; 108; 105; 110; 101; 96]%N) 15 2 false; mkTok 40 "," 16 6 false; mkTok 42 "falsey" 16 8 false; mkTok 42 "options1" 16 15 false; mkTok 40 "," 17 4 false; mkTok 36 "repeat" 17 6 false; mkTok 16 "char[]" 17 13 false; mkTok 42 "calculatedFrom" 17 20 false; mkTok 40 "," 17 35 false; mkTok 32 "@rightPad" 17 37 false; mkTok 8 "(" 17 47 false; mkTok 33 "'\x00'" 17 49 false; mkTok 6 ")" 17 56 false; mkTok 27 "i64" 18 0 false; mkTok 44 "// c" 18 4 true; mkTok 42 "charz" 19 0 false; mkTok 7 "@lengthOf(" 20 4 false; mkTok 42 "x_y_z" 21 4 false; mkTok 6 ")" 21 10 false; mkTok 43 "`u8 x,`" 22 4 false; mkTok 40 "," 22 11 false; mkTok 44 "// @lengthOf(" 23 0 true; mkTok 44 "//x" 24 0 true; mkTok 7 "@lengthOf(" 25 0 false; mkTok 42 "rootA" 25 11 false; mkTok 6 ")" 25 17 false; mkTok 16 "char[]" 25 18 false; mkTok 42 "BodyLength" 25 25 false; mkTok 43 "`it's`" 25 36 false; mkTok 40 "," 26 0 false; mkTok 42 "msg_type" 26 2 false; mkTok 5 "@calculatedFrom(" 26 10 false; mkTok 44 "// trailing space " 26 27 true; mkTok 31 """packet""" 27 0 false; mkTok 6 ")" 27 8 false; mkTok 40 "," 27 10 false; mkTok 44 (string_of_bytes [47; 47; 32; 230; 179; 168; 233; 135; 138]%N) 28 4 true; mkTok 42 "lengthOf" 29 4 false; mkTok 2 "{" 29 13 false; mkTok 14 "zchar[" 29 14 false; mkTok 30 "65535" 30 0 false; mkTok 13 "]" 30 6 false; mkTok 42 "tag" 30 7 false; mkTok 43 (string_of_bytes [96; 10; 96]%N) 31 0 false; mkTok 40 "," 33 4 false; mkTok 3 "}" 33 6 false; mkTok 40 "," 34 4 false; mkTok 3 "}" 34 6 false; mkTok 0 "<EOF>" 34 10 false] (mkPacket (mkPtok 37 "MetaData" 2 0 0) (Some (mkPtok 3 "}" 34 6 90)) [(DMeta (mkMetaDef (mkSpan (mkPtok 37 "MetaData" 2 0 0) (mkPtok 3 "}" 10 2 28)) (mkPtok 37 "MetaData" 2 0 0) (mkPtok 42 "matchKey" 2 9 1) (mkPtok 2 "{" 2 18 2) [(MIDecl (mkMetaDecl (mkSpan (mkPtok 25 "i16" 2 20 3) (mkPtok 40 "," 3 8 5)) (TyBasic (mkSpan (mkPtok 25 "i16" 2 20 3) (mkPtok 25 "i16" 2 20 3)) (mkBasicType (mkSpan (mkPtok 25 "i16" 2 20 3) (mkPtok 25 "i16" 2 20 3)) (mkPtok 25 "i16" 2 20 3))) (mkPtok 42 "lengthOf" 3 0 4) None (mkPtok 40 "," 3 8 5))); (MIDecl (mkMetaDecl (mkSpan (mkPtok 25 "int16" 3 10 6) (mkPtok 40 "," 5 4 9)) (TyBasic (mkSpan (mkPtok 25 "int16" 3 10 6) (mkPtok 25 "int16" 3 10 6)) (mkBasicType (mkSpan (mkPtok 25 "int16" 3 10 6) (mkPtok 25 "int16" 3 10 6)) (mkPtok 25 "int16" 3 10 6))) (mkPtok 42 "asx" 4 4 7) (Some (mkPtok 43 "`it's`" 4 8 8)) (mkPtok 40 "," 5 4 9))); (MIRef (mkRefMetaDecl (mkSpan (mkPtok 42 "chars" 6 4 10) (mkPtok 40 "," 7 2 13)) (mkPtok 42 "chars" 6 4 10) (mkPtok 42 "metadata" 6 10 11) (Some (mkPtok 43 (string_of_bytes [96; 10; 96]%N) 6 19 12)) (mkPtok 40 "," 7 2 13))); (MIDecl (mkMetaDecl (mkSpan (mkPtok 12 "char[" 7 4 14) (mkPtok 40 "," 7 20 18)) (TyFixed (mkSpan (mkPtok 12 "char[" 7 4 14) (mkPtok 13 "]" 7 13 16)) (mkFixedString (mkSpan (mkPtok 12 "char[" 7 4 14) (mkPtok 13 "]" 7 13 16)) (mkPtok 12 "char[" 7 4 14) (mkPtok 30 "00" 7 10 15) (mkPtok 13 "]" 7 13 16))) (mkPtok 42 "u128" 7 15 17) None (mkPtok 40 "," 7 20 18))); (MIDecl (mkMetaDecl (mkSpan (mkPtok 14 "zchar[" 8 0 20) (mkPtok 40 "," 9 0 24)) (TyFixed (mkSpan (mkPtok 14 "zchar[" 8 0 20) (mkPtok 13 "]" 8 11 22)) (mkFixedString (mkSpan (mkPtok 14 "zchar[" 8 0 20) (mkPtok 13 "]" 8 11 22)) (mkPtok 14 "zchar[" 8 0 20) (mkPtok 30 "007" 8 7 21) (mkPtok 13 "]" 8 11 22))) (mkPtok 42 "falsey" 8 13 23) None (mkPtok 40 "," 9 0 24))); (MIDecl (mkMetaDecl (mkSpan (mkPtok 23 "uint64" 9 3 25) (mkPtok 40 "," 10 0 27)) (TyBasic (mkSpan (mkPtok 23 "uint64" 9 3 25) (mkPtok 23 "uint64" 9 3 25)) (mkBasicType (mkSpan (mkPtok 23 "uint64" 9 3 25) (mkPtok 23 "uint64" 9 3 25)) (mkPtok 23 "uint64" 9 3 25))) (mkPtok 42 "packetx" 9 10 26) None (mkPtok 40 "," 10 0 27)))] (mkPtok 3 "}" 10 2 28))); (DPacket (mkPacketDef (mkSpan (mkPtok 35 "packet" 11 4 29) (mkPtok 3 "}" 13 0 32)) None (mkPtok 35 "packet" 11 4 29) (mkPtok 42 "string_" 11 11 30) (mkPtok 2 "{" 12 4 31) [] (mkPtok 3 "}" 13 0 32))); (DPacket (mkPacketDef (mkSpan (mkPtok 34 "root" 13 1 33) (mkPtok 3 "}" 34 6 90)) (Some (mkPtok 34 "root" 13 1 33)) (mkPtok 35 "packet" 14 0 34) (mkPtok 42 "stringy" 14 7 35) (mkPtok 2 "{" 14 14 36) [(mkFieldWithAttr (mkSpan (mkPtok 23 "u64" 14 15 37) (mkPtok 40 "," 16 6 44)) [] (LengthField (mkSpan (mkPtok 23 "u64" 14 15 37) (mkPtok 40 "," 16 6 44)) (mkLengthFieldDecl (mkSpan (mkPtok 23 "u64" 14 15 37) (mkPtok 40 "," 16 6 44)) (Some (TyBasic (mkSpan (mkPtok 23 "u64" 14 15 37) (mkPtok 23 "u64" 14 15 37)) (mkBasicType (mkSpan (mkPtok 23 "u64" 14 15 37) (mkPtok 23 "u64" 14 15 37)) (mkPtok 23 "u64" 14 15 37)))) (mkPtok 42 "packetx" 14 19 38) (mkLengthOf (mkSpan (mkPtok 7 "@lengthOf(" 14 27 39) (mkPtok 6 ")" 15 0 42)) (mkPtok 7 "@lengthOf(" 14 27 39) (mkPtok 42 "falsey" 14 38 40) (mkPtok 6 ")" 15 0 42)) (Some (mkPtok 43 (string_of_bytes [96; 99; 114; 108; 102; 13; 10; 108; 105; 110; 101; 96]%N) 15 2 43)) (mkPtok 40 "," 16 6 44)))); (mkFieldWithAttr (mkSpan (mkPtok 42 "falsey" 16 8 45) (mkPtok 40 "," 17 4 47)) [] (ObjectField (mkSpan (mkPtok 42 "falsey" 16 8 45) (mkPtok 40 "," 17 4 47)) None (mkPtok 42 "falsey" 16 8 45) (Some (mkPtok 42 "options1" 16 15 46)) None (mkPtok 40 "," 17 4 47))); (mkFieldWithAttr (mkSpan (mkPtok 36 "repeat" 17 6 48) (mkPtok 40 "," 17 35 51)) [] (MetaField (mkSpan (mkPtok 36 "repeat" 17 6 48) (mkPtok 40 "," 17 35 51)) (Some (mkPtok 36 "repeat" 17 6 48)) (mkMetaDecl (mkSpan (mkPtok 16 "char[]" 17 13 49) (mkPtok 40 "," 17 35 51)) (TyDynamic (mkSpan (mkPtok 16 "char[]" 17 13 49) (mkPtok 16 "char[]" 17 13 49)) (mkDynamicString (mkSpan (mkPtok 16 "char[]" 17 13 49) (mkPtok 16 "char[]" 17 13 49)) (mkPtok 16 "char[]" 17 13 49))) (mkPtok 42 "calculatedFrom" 17 20 50) None (mkPtok 40 "," 17 35 51)))); (mkFieldWithAttr (mkSpan (mkPtok 32 "@rightPad" 17 37 52) (mkPtok 40 "," 22 11 63)) [(FAPadding (mkSpan (mkPtok 32 "@rightPad" 17 37 52) (mkPtok 6 ")" 17 56 55)) (mkPaddingAttr (mkSpan (mkPtok 32 "@rightPad" 17 37 52) (mkPtok 6 ")" 17 56 55)) (mkPtok 32 "@rightPad" 17 37 52) (mkPtok 8 "(" 17 47 53) (Some (mkPtok 33 "'\x00'" 17 49 54)) (mkPtok 6 ")" 17 56 55)))] (LengthField (mkSpan (mkPtok 27 "i64" 18 0 56) (mkPtok 40 "," 22 11 63)) (mkLengthFieldDecl (mkSpan (mkPtok 27 "i64" 18 0 56) (mkPtok 40 "," 22 11 63)) (Some (TyBasic (mkSpan (mkPtok 27 "i64" 18 0 56) (mkPtok 27 "i64" 18 0 56)) (mkBasicType (mkSpan (mkPtok 27 "i64" 18 0 56) (mkPtok 27 "i64" 18 0 56)) (mkPtok 27 "i64" 18 0 56)))) (mkPtok 42 "charz" 19 0 58) (mkLengthOf (mkSpan (mkPtok 7 "@lengthOf(" 20 4 59) (mkPtok 6 ")" 21 10 61)) (mkPtok 7 "@lengthOf(" 20 4 59) (mkPtok 42 "x_y_z" 21 4 60) (mkPtok 6 ")" 21 10 61)) (Some (mkPtok 43 "`u8 x,`" 22 4 62)) (mkPtok 40 "," 22 11 63)))); (mkFieldWithAttr (mkSpan (mkPtok 7 "@lengthOf(" 25 0 66) (mkPtok 40 "," 26 0 72)) [(FALengthOf (mkSpan (mkPtok 7 "@lengthOf(" 25 0 66) (mkPtok 6 ")" 25 17 68)) (mkLengthOf (mkSpan (mkPtok 7 "@lengthOf(" 25 0 66) (mkPtok 6 ")" 25 17 68)) (mkPtok 7 "@lengthOf(" 25 0 66) (mkPtok 42 "rootA" 25 11 67) (mkPtok 6 ")" 25 17 68)))] (MetaField (mkSpan (mkPtok 16 "char[]" 25 18 69) (mkPtok 40 "," 26 0 72)) None (mkMetaDecl (mkSpan (mkPtok 16 "char[]" 25 18 69) (mkPtok 40 "," 26 0 72)) (TyDynamic (mkSpan (mkPtok 16 "char[]" 25 18 69) (mkPtok 16 "char[]" 25 18 69)) (mkDynamicString (mkSpan (mkPtok 16 "char[]" 25 18 69) (mkPtok 16 "char[]" 25 18 69)) (mkPtok 16 "char[]" 25 18 69))) (mkPtok 42 "BodyLength" 25 25 70) (Some (mkPtok 43 "`it's`" 25 36 71)) (mkPtok 40 "," 26 0 72)))); (mkFieldWithAttr (mkSpan (mkPtok 42 "msg_type" 26 2 73) (mkPtok 40 "," 27 10 78)) [] (CheckSumField (mkSpan (mkPtok 42 "msg_type" 26 2 73) (mkPtok 40 "," 27 10 78)) (mkChecksumFieldDecl (mkSpan (mkPtok 42 "msg_type" 26 2 73) (mkPtok 40 "," 27 10 78)) None (mkPtok 42 "msg_type" 26 2 73) (mkCalculatedFrom (mkSpan (mkPtok 5 "@calculatedFrom(" 26 10 74) (mkPtok 6 ")" 27 8 77)) (mkPtok 5 "@calculatedFrom(" 26 10 74) (mkPtok 31 """packet""" 27 0 76) (mkPtok 6 ")" 27 8 77)) None (mkPtok 40 "," 27 10 78)))); (mkFieldWithAttr (mkSpan (mkPtok 42 "lengthOf" 29 4 80) (mkPtok 40 "," 34 4 89)) [] (InerObjectField (mkSpan (mkPtok 42 "lengthOf" 29 4 80) (mkPtok 40 "," 34 4 89)) None (InerObjectDecl (mkSpan (mkPtok 42 "lengthOf" 29 4 80) (mkPtok 3 "}" 33 6 88)) (mkPtok 42 "lengthOf" 29 4 80) (mkPtok 2 "{" 29 13 81) [(MetaField (mkSpan (mkPtok 14 "zchar[" 29 14 82) (mkPtok 40 "," 33 4 87)) None (mkMetaDecl (mkSpan (mkPtok 14 "zchar[" 29 14 82) (mkPtok 40 "," 33 4 87)) (TyFixed (mkSpan (mkPtok 14 "zchar[" 29 14 82) (mkPtok 13 "]" 30 6 84)) (mkFixedString (mkSpan (mkPtok 14 "zchar[" 29 14 82) (mkPtok 13 "]" 30 6 84)) (mkPtok 14 "zchar[" 29 14 82) (mkPtok 30 "65535" 30 0 83) (mkPtok 13 "]" 30 6 84))) (mkPtok 42 "tag" 30 7 85) (Some (mkPtok 43 (string_of_bytes [96; 10; 96]%N) 31 0 86)) (mkPtok 40 "," 33 4 87)))] (mkPtok 3 "}" 33 6 88)) (mkPtok 40 "," 34 4 89)))] (mkPtok 3 "}" 34 6 90)))])).
+    //x
+    ,@leftPad( '0'
+)
+// " ++ [128512]%N ++ runes_of_ascii " emoji
+// " ++ [128512]%N ++ runes_of_ascii " emoji
+@leftPad ()  @leftPad (
+)  leftPad {  repeat i8 roots
+, i16 float
+    @lengthOf( string_
+)// " ++ [128512]%N ++ runes_of_ascii " emoji
+, repeat Logon msg_type ,repeat x { repeat
+zchar[  3
+] _x  `two words` , string i8i8 `u8 x,`	, i32 float @calculatedFrom( ""\" ++ [233]%N ++ runes_of_ascii """ ) // c
+, } // " ++ [27880; 37322]%N ++ runes_of_ascii "
+, }
+, // c
+repeat
+uint64 i64_
+, string options1	, char[ 1 ]
+i8i8, } // @lengthOf(")).
+Eval vm_compute in ("<<<M273>>>" ++ check (runes_of_ascii "
+")).
+Eval vm_compute in ("<<<M283>>>" ++ check (runes_of_ascii "  packet	i64_ {
+_x
+i64_ `// not a comment` , @rightPad	(
+)
+@calculatedFrom( ""`tick`"" // packet A { u8 x, }
+)match _x as  Logon { [ ""a	b"" ]	: metadata , 1 :
+o 00 :float	,},	@tag( 1
+    ) @lengthOf(matchKey ) zchar[ 255 ]	options1`tab	here` , } // @lengthOf(")).
+Eval vm_compute in ("<<<M293>>>" ++ check (runes_of_ascii "packet i8i8 {// packet A { u8 x, }
+match /// triple
+float
+as x_y_z { """" :
+u128 // trailing space 
+} ,
+@calculatedFrom(	""packet"" ) repeat
+char[
+// " ++ [27880; 37322]%N ++ runes_of_ascii "
+// " ++ [128512]%N ++ runes_of_ascii " emoji
+65535
+]
+uint8x ,	@rightPad (
+    ' ' ) leftPad `doc` ,tag @calculatedFrom(// `tick` ""quote"" 'q'
+""x y"" //
+) `// not a comment` , @leftPad(' ' ) zchar[
+    00 ]int
+    `" ++ [28040; 24687; 31867; 22411]%N ++ runes_of_ascii "`
+,}  root packet pack
+// " ++ [128512]%N ++ runes_of_ascii " emoji
+//
+{options1
+{
+rootA {char[ 42 ]
+//
+// @lengthOf(
+float
+    // `tick` ""quote"" 'q'
+    ,
+    char[ //	t
+255
+    ] roots
+    // @lengthOf(
+    , // " ++ [128512]%N ++ runes_of_ascii " emoji
+repeat int64
+matchKey , // packet A { u8 x, }
+} // `tick` ""quote"" 'q'
+,Header , u8x  zchar `{ , }`	, }
+, match  x_y_z
+as
+options1 {""x y""
+    :
+    calculatedFrom ""x y"" :
+pack , [""x y"" , 1, 0,
+/// triple
+// `tick` ""quote"" 'q'
+""\" ++ [233]%N ++ runes_of_ascii """ ,	4294967296 ,
+    ""a	b"" ,42 ,
+0123456789]
+: lengthOf ,	4294967296 :
+    len ,
+} ,asx@lengthOf( // " ++ [27880; 37322]%N ++ runes_of_ascii "
+Header ) , match
+float as calculatedFrom {3 : T,
+    """ ++ [28040; 24687]%N ++ runes_of_ascii """
+    // trailing space 
+    :// @lengthOf(
+uint8x
+255: Packet
+,}// " ++ [128512]%N ++ runes_of_ascii " emoji
+, repeat char[] Header , } packet
+u128 {
+    @calculatedFrom(
+//	t
+//	t
+""" ++ [233]%N ++ runes_of_ascii "t" ++ [233]%N ++ runes_of_ascii """ ) @lengthOf( calculatedFrom	)	zchar	, @lengthOf( Packet )
+    lengthOf @calculatedFrom(
+//x
+// 50% %s
+""\n"" ) ``,
+@rightPad //	t
+() char[ 0123456789
+]	float
+,@lengthOf( options1) @tag(
+7
+    // c
+    )
+@tag(007 ) crc int,}  packet i64_{
+    // c
+    @tag( 7) repeat string Logon  , @tag( 1) u32 metadata @lengthOf( rootA),} 	 ")).
+Eval vm_compute in ("<<<T293>>>" ++ terms [mkTok 35 "packet" 1 0 false; mkTok 42 "i8i8" 1 7 false; mkTok 2 "{" 1 12 false; mkTok 44 "// packet A { u8 x, }" 1 13 true; mkTok 38 "match" 2 0 false; mkTok 44 "/// triple" 2 6 true; mkTok 42 "float" 3 0 false; mkTok 17 "as" 4 0 false; mkTok 42 "x_y_z" 4 3 false; mkTok 2 "{" 4 9 false; mkTok 31 """""" 4 11 false; mkTok 39 ":" 4 14 false; mkTok 42 "u128" 5 0 false; mkTok 44 "// trailing space " 5 5 true; mkTok 3 "}" 6 0 false; mkTok 40 "," 6 2 false; mkTok 5 "@calculatedFrom(" 7 0 false; mkTok 31 """packet""" 7 17 false; mkTok 6 ")" 7 26 false; mkTok 36 "repeat" 7 28 false; mkTok 12 "char[" 8 0 false; mkTok 44 (string_of_bytes [47; 47; 32; 230; 179; 168; 233; 135; 138]%N) 9 0 true; mkTok 44 (string_of_bytes [47; 47; 32; 240; 159; 152; 128; 32; 101; 109; 111; 106; 105]%N) 10 0 true; mkTok 30 "65535" 11 0 false; mkTok 13 "]" 12 0 false; mkTok 42 "uint8x" 13 0 false; mkTok 40 "," 13 7 false; mkTok 32 "@rightPad" 13 9 false; mkTok 8 "(" 13 19 false; mkTok 33 "' '" 14 4 false; mkTok 6 ")" 14 8 false; mkTok 42 "leftPad" 14 10 false; mkTok 43 "`doc`" 14 18 false; mkTok 40 "," 14 24 false; mkTok 42 "tag" 14 25 false; mkTok 5 "@calculatedFrom(" 14 29 false; mkTok 44 "// `tick` ""quote"" 'q'" 14 45 true; mkTok 31 """x y""" 15 0 false; mkTok 44 "//" 15 6 true; mkTok 6 ")" 16 0 false; mkTok 43 "`// not a comment`" 16 2 false; mkTok 40 "," 16 21 false; mkTok 32 "@leftPad" 16 23 false; mkTok 8 "(" 16 31 false; mkTok 33 "' '" 16 32 false; mkTok 6 ")" 16 36 false; mkTok 14 "zchar[" 16 38 false; mkTok 30 "00" 17 4 false; mkTok 13 "]" 17 7 false; mkTok 42 "int" 17 8 false; mkTok 43 (string_of_bytes [96; 230; 182; 136; 230; 129; 175; 231; 177; 187; 229; 158; 139; 96]%N) 18 4 false; mkTok 40 "," 19 0 false; mkTok 3 "}" 19 1 false; mkTok 34 "root" 19 4 false; mkTok 35 "packet" 19 9 false; mkTok 42 "pack" 19 16 false; mkTok 44 (string_of_bytes [47; 47; 32; 240; 159; 152; 128; 32; 101; 109; 111; 106; 105]%N) 20 0 true; mkTok 44 "//" 21 0 true; mkTok 2 "{" 22 0 false; mkTok 42 "options1" 22 1 false; mkTok 2 "{" 23 0 false; mkTok 42 "rootA" 24 0 false; mkTok 2 "{" 24 6 false; mkTok 12 "char[" 24 7 false; mkTok 30 "42" 24 13 false; mkTok 13 "]" 24 16 false; mkTok 44 "//" 25 0 true; mkTok 44 "// @lengthOf(" 26 0 true; mkTok 42 "float" 27 0 false; mkTok 44 "// `tick` ""quote"" 'q'" 28 4 true; mkTok 40 "," 29 4 false; mkTok 12 "char[" 30 4 false; mkTok 44 (string_of_bytes [47; 47; 9; 116]%N) 30 10 true; mkTok 30 "255" 31 0 false; mkTok 13 "]" 32 4 false; mkTok 42 "roots" 32 6 false; mkTok 44 "// @lengthOf(" 33 4 true; mkTok 40 "," 34 4 false; mkTok 44 (string_of_bytes [47; 47; 32; 240; 159; 152; 128; 32; 101; 109; 111; 106; 105]%N) 34 6 true; mkTok 36 "repeat" 35 0 false; mkTok 27 "int64" 35 7 false; mkTok 42 "matchKey" 36 0 false; mkTok 40 "," 36 9 false; mkTok 44 "// packet A { u8 x, }" 36 11 true; mkTok 3 "}" 37 0 false; mkTok 44 "// `tick` ""quote"" 'q'" 37 2 true; mkTok 40 "," 38 0 false; mkTok 42 "Header" 38 1 false; mkTok 40 "," 38 8 false; mkTok 42 "u8x" 38 10 false; mkTok 42 "zchar" 38 15 false; mkTok 43 "`{ , }`" 38 21 false; mkTok 40 "," 38 29 false; mkTok 3 "}" 38 31 false; mkTok 40 "," 39 0 false; mkTok 38 "match" 39 2 false; mkTok 42 "x_y_z" 39 9 false; mkTok 17 "as" 40 0 false; mkTok 42 "options1" 41 0 false; mkTok 2 "{" 41 9 false; mkTok 31 """x y""" 41 10 false; mkTok 39 ":" 42 4 false; mkTok 42 "calculatedFrom" 43 4 false; mkTok 31 """x y""" 43 19 false; mkTok 39 ":" 43 25 false; mkTok 42 "pack" 44 0 false; mkTok 40 "," 44 5 false; mkTok 18 "[" 44 7 false; mkTok 31 """x y""" 44 8 false; mkTok 40 "," 44 14 false; mkTok 30 "1" 44 16 false; mkTok 40 "," 44 17 false; mkTok 30 "0" 44 19 false; mkTok 40 "," 44 20 false; mkTok 44 "/// triple" 45 0 true; mkTok 44 "// `tick` ""quote"" 'q'" 46 0 true; mkTok 31 (string_of_bytes [34; 92; 195; 169; 34]%N) 47 0 false; mkTok 40 "," 47 5 false; mkTok 30 "4294967296" 47 7 false; mkTok 40 "," 47 18 false; mkTok 31 (string_of_bytes [34; 97; 9; 98; 34]%N) 48 4 false; mkTok 40 "," 48 10 false; mkTok 30 "42" 48 11 false; mkTok 40 "," 48 14 false; mkTok 30 "0123456789" 49 0 false; mkTok 13 "]" 49 10 false; mkTok 39 ":" 50 0 false; mkTok 42 "lengthOf" 50 2 false; mkTok 40 "," 50 11 false; mkTok 30 "4294967296" 50 13 false; mkTok 39 ":" 50 24 false; mkTok 42 "len" 51 4 false; mkTok 40 "," 51 8 false; mkTok 3 "}" 52 0 false; mkTok 40 "," 52 2 false; mkTok 42 "asx" 52 3 false; mkTok 7 "@lengthOf(" 52 6 false; mkTok 44 (string_of_bytes [47; 47; 32; 230; 179; 168; 233; 135; 138]%N) 52 17 true; mkTok 42 "Header" 53 0 false; mkTok 6 ")" 53 7 false; mkTok 40 "," 53 9 false; mkTok 38 "match" 53 11 false; mkTok 42 "float" 54 0 false; mkTok 17 "as" 54 6 false; mkTok 42 "calculatedFrom" 54 9 false; mkTok 2 "{" 54 24 false; mkTok 30 "3" 54 25 false; mkTok 39 ":" 54 27 false; mkTok 42 "T" 54 29 false; mkTok 40 "," 54 30 false; mkTok 31 (string_of_bytes [34; 230; 182; 136; 230; 129; 175; 34]%N) 55 4 false; mkTok 44 "// trailing space " 56 4 true; mkTok 39 ":" 57 4 false; mkTok 44 "// @lengthOf(" 57 5 true; mkTok 42 "uint8x" 58 0 false; mkTok 30 "255" 59 0 false; mkTok 39 ":" 59 3 false; mkTok 42 "Packet" 59 5 false; mkTok 40 "," 60 0 false; mkTok 3 "}" 60 1 false; mkTok 44 (string_of_bytes [47; 47; 32; 240; 159; 152; 128; 32; 101; 109; 111; 106; 105]%N) 60 2 true; mkTok 40 "," 61 0 false; mkTok 36 "repeat" 61 2 false; mkTok 16 "char[]" 61 9 false; mkTok 42 "Header" 61 16 false; mkTok 40 "," 61 23 false; mkTok 3 "}" 61 25 false; mkTok 35 "packet" 61 27 false; mkTok 42 "u128" 62 0 false; mkTok 2 "{" 62 5 false; mkTok 5 "@calculatedFrom(" 63 4 false; mkTok 44 (string_of_bytes [47; 47; 9; 116]%N) 64 0 true; mkTok 44 (string_of_bytes [47; 47; 9; 116]%N) 65 0 true; mkTok 31 (string_of_bytes [34; 195; 169; 116; 195; 169; 34]%N) 66 0 false; mkTok 6 ")" 66 6 false; mkTok 7 "@lengthOf(" 66 8 false; mkTok 42 "calculatedFrom" 66 19 false; mkTok 6 ")" 66 34 false; mkTok 42 "zchar" 66 36 false; mkTok 40 "," 66 42 false; mkTok 7 "@lengthOf(" 66 44 false; mkTok 42 "Packet" 66 55 false; mkTok 6 ")" 66 62 false; mkTok 42 "lengthOf" 67 4 false; mkTok 5 "@calculatedFrom(" 67 13 false; mkTok 44 "//x" 68 0 true; mkTok 44 "// 50% %s" 69 0 true; mkTok 31 """\n""" 70 0 false; mkTok 6 ")" 70 5 false; mkTok 43 "``" 70 7 false; mkTok 40 "," 70 9 false; mkTok 32 "@rightPad" 71 0 false; mkTok 44 (string_of_bytes [47; 47; 9; 116]%N) 71 10 true; mkTok 8 "(" 72 0 false; mkTok 6 ")" 72 1 false; mkTok 12 "char[" 72 3 false; mkTok 30 "0123456789" 72 9 false; mkTok 13 "]" 73 0 false; mkTok 42 "float" 73 2 false; mkTok 40 "," 74 0 false; mkTok 7 "@lengthOf(" 74 1 false; mkTok 42 "options1" 74 12 false; mkTok 6 ")" 74 20 false; mkTok 9 "@tag(" 74 22 false; mkTok 30 "7" 75 0 false; mkTok 44 "// c" 76 4 true; mkTok 6 ")" 77 4 false; mkTok 9 "@tag(" 78 0 false; mkTok 30 "007" 78 5 false; mkTok 6 ")" 78 9 false; mkTok 42 "crc" 78 11 false; mkTok 42 "int" 78 15 false; mkTok 40 "," 78 18 false; mkTok 3 "}" 78 19 false; mkTok 35 "packet" 78 22 false; mkTok 42 "i64_" 78 29 false; mkTok 2 "{" 78 33 false; mkTok 44 "// c" 79 4 true; mkTok 9 "@tag(" 80 4 false; mkTok 30 "7" 80 10 false; mkTok 6 ")" 80 11 false; mkTok 36 "repeat" 80 13 false; mkTok 15 "string" 80 20 false; mkTok 42 "Logon" 80 27 false; mkTok 40 "," 80 34 false; mkTok 9 "@tag(" 80 36 false; mkTok 30 "1" 80 42 false; mkTok 6 ")" 80 43 false; mkTok 22 "u32" 80 45 false; mkTok 42 "metadata" 80 49 false; mkTok 7 "@lengthOf(" 80 58 false; mkTok 42 "rootA" 80 69 false; mkTok 6 ")" 80 74 false; mkTok 40 "," 80 75 false; mkTok 3 "}" 80 76 false; mkTok 0 "<EOF>" 80 80 false] (mkPacket (mkPtok 35 "packet" 1 0 0) (Some (mkPtok 3 "}" 80 76 234)) [(DPacket (mkPacketDef (mkSpan (mkPtok 35 "packet" 1 0 0) (mkPtok 3 "}" 19 1 52)) None (mkPtok 35 "packet" 1 0 0) (mkPtok 42 "i8i8" 1 7 1) (mkPtok 2 "{" 1 12 2) [(mkFieldWithAttr (mkSpan (mkPtok 38 "match" 2 0 4) (mkPtok 40 "," 6 2 15)) [] (MatchField (mkSpan (mkPtok 38 "match" 2 0 4) (mkPtok 40 "," 6 2 15)) (mkMatchFieldDecl (mkSpan (mkPtok 38 "match" 2 0 4) (mkPtok 3 "}" 6 0 14)) (mkPtok 38 "match" 2 0 4) (mkPtok 42 "float" 3 0 6) (mkPtok 17 "as" 4 0 7) (mkPtok 42 "x_y_z" 4 3 8) (mkPtok 2 "{" 4 9 9) [(mkMatchPair (mkSpan (mkPtok 31 """""" 4 11 10) (mkPtok 42 "u128" 5 0 12)) (MKString (mkPtok 31 """""" 4 11 10)) (mkPtok 39 ":" 4 14 11) (mkPtok 42 "u128" 5 0 12) None)] (mkPtok 3 "}" 6 0 14)) (mkPtok 40 "," 6 2 15))); (mkFieldWithAttr (mkSpan (mkPtok 5 "@calculatedFrom(" 7 0 16) (mkPtok 40 "," 13 7 26)) [(FACalculatedFrom (mkSpan (mkPtok 5 "@calculatedFrom(" 7 0 16) (mkPtok 6 ")" 7 26 18)) (mkCalculatedFrom (mkSpan (mkPtok 5 "@calculatedFrom(" 7 0 16) (mkPtok 6 ")" 7 26 18)) (mkPtok 5 "@calculatedFrom(" 7 0 16) (mkPtok 31 """packet""" 7 17 17) (mkPtok 6 ")" 7 26 18)))] (MetaField (mkSpan (mkPtok 36 "repeat" 7 28 19) (mkPtok 40 "," 13 7 26)) (Some (mkPtok 36 "repeat" 7 28 19)) (mkMetaDecl (mkSpan (mkPtok 12 "char[" 8 0 20) (mkPtok 40 "," 13 7 26)) (TyFixed (mkSpan (mkPtok 12 "char[" 8 0 20) (mkPtok 13 "]" 12 0 24)) (mkFixedString (mkSpan (mkPtok 12 "char[" 8 0 20) (mkPtok 13 "]" 12 0 24)) (mkPtok 12 "char[" 8 0 20) (mkPtok 30 "65535" 11 0 23) (mkPtok 13 "]" 12 0 24))) (mkPtok 42 "uint8x" 13 0 25) None (mkPtok 40 "," 13 7 26)))); (mkFieldWithAttr (mkSpan (mkPtok 32 "@rightPad" 13 9 27) (mkPtok 40 "," 14 24 33)) [(FAPadding (mkSpan (mkPtok 32 "@rightPad" 13 9 27) (mkPtok 6 ")" 14 8 30)) (mkPaddingAttr (mkSpan (mkPtok 32 "@rightPad" 13 9 27) (mkPtok 6 ")" 14 8 30)) (mkPtok 32 "@rightPad" 13 9 27) (mkPtok 8 "(" 13 19 28) (Some (mkPtok 33 "' '" 14 4 29)) (mkPtok 6 ")" 14 8 30)))] (ObjectField (mkSpan (mkPtok 42 "leftPad" 14 10 31) (mkPtok 40 "," 14 24 33)) None (mkPtok 42 "leftPad" 14 10 31) None (Some (mkPtok 43 "`doc`" 14 18 32)) (mkPtok 40 "," 14 24 33))); (mkFieldWithAttr (mkSpan (mkPtok 42 "tag" 14 25 34) (mkPtok 40 "," 16 21 41)) [] (CheckSumField (mkSpan (mkPtok 42 "tag" 14 25 34) (mkPtok 40 "," 16 21 41)) (mkChecksumFieldDecl (mkSpan (mkPtok 42 "tag" 14 25 34) (mkPtok 40 "," 16 21 41)) None (mkPtok 42 "tag" 14 25 34) (mkCalculatedFrom (mkSpan (mkPtok 5 "@calculatedFrom(" 14 29 35) (mkPtok 6 ")" 16 0 39)) (mkPtok 5 "@calculatedFrom(" 14 29 35) (mkPtok 31 """x y""" 15 0 37) (mkPtok 6 ")" 16 0 39)) (Some (mkPtok 43 "`// not a comment`" 16 2 40)) (mkPtok 40 "," 16 21 41)))); (mkFieldWithAttr (mkSpan (mkPtok 32 "@leftPad" 16 23 42) (mkPtok 40 "," 19 0 51)) [(FAPadding (mkSpan (mkPtok 32 "@leftPad" 16 23 42) (mkPtok 6 ")" 16 36 45)) (mkPaddingAttr (mkSpan (mkPtok 32 "@leftPad" 16 23 42) (mkPtok 6 ")" 16 36 45)) (mkPtok 32 "@leftPad" 16 23 42) (mkPtok 8 "(" 16 31 43) (Some (mkPtok 33 "' '" 16 32 44)) (mkPtok 6 ")" 16 36 45)))] (MetaField (mkSpan (mkPtok 14 "zchar[" 16 38 46) (mkPtok 40 "," 19 0 51)) None (mkMetaDecl (mkSpan (mkPtok 14 "zchar[" 16 38 46) (mkPtok 40 "," 19 0 51)) (TyFixed (mkSpan (mkPtok 14 "zchar[" 16 38 46) (mkPtok 13 "]" 17 7 48)) (mkFixedString (mkSpan (mkPtok 14 "zchar[" 16 38 46) (mkPtok 13 "]" 17 7 48)) (mkPtok 14 "zchar[" 16 38 46) (mkPtok 30 "00" 17 4 47) (mkPtok 13 "]" 17 7 48))) (mkPtok 42 "int" 17 8 49) (Some (mkPtok 43 (string_of_bytes [96; 230; 182; 136; 230; 129; 175; 231; 177; 187; 229; 158; 139; 96]%N) 18 4 50)) (mkPtok 40 "," 19 0 51))))] (mkPtok 3 "}" 19 1 52))); (DPacket (mkPacketDef (mkSpan (mkPtok 34 "root" 19 4 53) (mkPtok 3 "}" 61 25 166)) (Some (mkPtok 34 "root" 19 4 53)) (mkPtok 35 "packet" 19 9 54) (mkPtok 42 "pack" 19 16 55) (mkPtok 2 "{" 22 0 58) [(mkFieldWithAttr (mkSpan (mkPtok 42 "options1" 22 1 59) (mkPtok 40 "," 39 0 94)) [] (InerObjectField (mkSpan (mkPtok 42 "options1" 22 1 59) (mkPtok 40 "," 39 0 94)) None (InerObjectDecl (mkSpan (mkPtok 42 "options1" 22 1 59) (mkPtok 3 "}" 38 31 93)) (mkPtok 42 "options1" 22 1 59) (mkPtok 2 "{" 23 0 60) [(InerObjectField (mkSpan (mkPtok 42 "rootA" 24 0 61) (mkPtok 40 "," 38 0 86)) None (InerObjectDecl (mkSpan (mkPtok 42 "rootA" 24 0 61) (mkPtok 3 "}" 37 0 84)) (mkPtok 42 "rootA" 24 0 61) (mkPtok 2 "{" 24 6 62) [(MetaField (mkSpan (mkPtok 12 "char[" 24 7 63) (mkPtok 40 "," 29 4 70)) None (mkMetaDecl (mkSpan (mkPtok 12 "char[" 24 7 63) (mkPtok 40 "," 29 4 70)) (TyFixed (mkSpan (mkPtok 12 "char[" 24 7 63) (mkPtok 13 "]" 24 16 65)) (mkFixedString (mkSpan (mkPtok 12 "char[" 24 7 63) (mkPtok 13 "]" 24 16 65)) (mkPtok 12 "char[" 24 7 63) (mkPtok 30 "42" 24 13 64) (mkPtok 13 "]" 24 16 65))) (mkPtok 42 "float" 27 0 68) None (mkPtok 40 "," 29 4 70))); (MetaField (mkSpan (mkPtok 12 "char[" 30 4 71) (mkPtok 40 "," 34 4 77)) None (mkMetaDecl (mkSpan (mkPtok 12 "char[" 30 4 71) (mkPtok 40 "," 34 4 77)) (TyFixed (mkSpan (mkPtok 12 "char[" 30 4 71) (mkPtok 13 "]" 32 4 74)) (mkFixedString (mkSpan (mkPtok 12 "char[" 30 4 71) (mkPtok 13 "]" 32 4 74)) (mkPtok 12 "char[" 30 4 71) (mkPtok 30 "255" 31 0 73) (mkPtok 13 "]" 32 4 74))) (mkPtok 42 "roots" 32 6 75) None (mkPtok 40 "," 34 4 77))); (MetaField (mkSpan (mkPtok 36 "repeat" 35 0 79) (mkPtok 40 "," 36 9 82)) (Some (mkPtok 36 "repeat" 35 0 79)) (mkMetaDecl (mkSpan (mkPtok 27 "int64" 35 7 80) (mkPtok 40 "," 36 9 82)) (TyBasic (mkSpan (mkPtok 27 "int64" 35 7 80) (mkPtok 27 "int64" 35 7 80)) (mkBasicType (mkSpan (mkPtok 27 "int64" 35 7 80) (mkPtok 27 "int64" 35 7 80)) (mkPtok 27 "int64" 35 7 80))) (mkPtok 42 "matchKey" 36 0 81) None (mkPtok 40 "," 36 9 82)))] (mkPtok 3 "}" 37 0 84)) (mkPtok 40 "," 38 0 86)); (ObjectField (mkSpan (mkPtok 42 "Header" 38 1 87) (mkPtok 40 "," 38 8 88)) None (mkPtok 42 "Header" 38 1 87) None None (mkPtok 40 "," 38 8 88)); (ObjectField (mkSpan (mkPtok 42 "u8x" 38 10 89) (mkPtok 40 "," 38 29 92)) None (mkPtok 42 "u8x" 38 10 89) (Some (mkPtok 42 "zchar" 38 15 90)) (Some (mkPtok 43 "`{ , }`" 38 21 91)) (mkPtok 40 "," 38 29 92))] (mkPtok 3 "}" 38 31 93)) (mkPtok 40 "," 39 0 94))); (mkFieldWithAttr (mkSpan (mkPtok 38 "match" 39 2 95) (mkPtok 40 "," 52 2 134)) [] (MatchField (mkSpan (mkPtok 38 "match" 39 2 95) (mkPtok 40 "," 52 2 134)) (mkMatchFieldDecl (mkSpan (mkPtok 38 "match" 39 2 95) (mkPtok 3 "}" 52 0 133)) (mkPtok 38 "match" 39 2 95) (mkPtok 42 "x_y_z" 39 9 96) (mkPtok 17 "as" 40 0 97) (mkPtok 42 "options1" 41 0 98) (mkPtok 2 "{" 41 9 99) [(mkMatchPair (mkSpan (mkPtok 31 """x y""" 41 10 100) (mkPtok 42 "calculatedFrom" 43 4 102)) (MKString (mkPtok 31 """x y""" 41 10 100)) (mkPtok 39 ":" 42 4 101) (mkPtok 42 "calculatedFrom" 43 4 102) None); (mkMatchPair (mkSpan (mkPtok 31 """x y""" 43 19 103) (mkPtok 40 "," 44 5 106)) (MKString (mkPtok 31 """x y""" 43 19 103)) (mkPtok 39 ":" 43 25 104) (mkPtok 42 "pack" 44 0 105) (Some (mkPtok 40 "," 44 5 106))); (mkMatchPair (mkSpan (mkPtok 18 "[" 44 7 107) (mkPtok 40 "," 50 11 128)) (MKList (mkKeyList (mkSpan (mkPtok 18 "[" 44 7 107) (mkPtok 13 "]" 49 10 125)) (mkPtok 18 "[" 44 7 107) (mkPtok 31 """x y""" 44 8 108) [((mkPtok 40 "," 44 14 109), (mkPtok 30 "1" 44 16 110)); ((mkPtok 40 "," 44 17 111), (mkPtok 30 "0" 44 19 112)); ((mkPtok 40 "," 44 20 113), (mkPtok 31 (string_of_bytes [34; 92; 195; 169; 34]%N) 47 0 116)); ((mkPtok 40 "," 47 5 117), (mkPtok 30 "4294967296" 47 7 118)); ((mkPtok 40 "," 47 18 119), (mkPtok 31 (string_of_bytes [34; 97; 9; 98; 34]%N) 48 4 120)); ((mkPtok 40 "," 48 10 121), (mkPtok 30 "42" 48 11 122)); ((mkPtok 40 "," 48 14 123), (mkPtok 30 "0123456789" 49 0 124))] (mkPtok 13 "]" 49 10 125))) (mkPtok 39 ":" 50 0 126) (mkPtok 42 "lengthOf" 50 2 127) (Some (mkPtok 40 "," 50 11 128))); (mkMatchPair (mkSpan (mkPtok 30 "4294967296" 50 13 129) (mkPtok 40 "," 51 8 132)) (MKDigits (mkPtok 30 "4294967296" 50 13 129)) (mkPtok 39 ":" 50 24 130) (mkPtok 42 "len" 51 4 131) (Some (mkPtok 40 "," 51 8 132)))] (mkPtok 3 "}" 52 0 133)) (mkPtok 40 "," 52 2 134))); (mkFieldWithAttr (mkSpan (mkPtok 42 "asx" 52 3 135) (mkPtok 40 "," 53 9 140)) [] (LengthField (mkSpan (mkPtok 42 "asx" 52 3 135) (mkPtok 40 "," 53 9 140)) (mkLengthFieldDecl (mkSpan (mkPtok 42 "asx" 52 3 135) (mkPtok 40 "," 53 9 140)) None (mkPtok 42 "asx" 52 3 135) (mkLengthOf (mkSpan (mkPtok 7 "@lengthOf(" 52 6 136) (mkPtok 6 ")" 53 7 139)) (mkPtok 7 "@lengthOf(" 52 6 136) (mkPtok 42 "Header" 53 0 138) (mkPtok 6 ")" 53 7 139)) None (mkPtok 40 "," 53 9 140)))); (mkFieldWithAttr (mkSpan (mkPtok 38 "match" 53 11 141) (mkPtok 40 "," 61 0 161)) [] (MatchField (mkSpan (mkPtok 38 "match" 53 11 141) (mkPtok 40 "," 61 0 161)) (mkMatchFieldDecl (mkSpan (mkPtok 38 "match" 53 11 141) (mkPtok 3 "}" 60 1 159)) (mkPtok 38 "match" 53 11 141) (mkPtok 42 "float" 54 0 142) (mkPtok 17 "as" 54 6 143) (mkPtok 42 "calculatedFrom" 54 9 144) (mkPtok 2 "{" 54 24 145) [(mkMatchPair (mkSpan (mkPtok 30 "3" 54 25 146) (mkPtok 40 "," 54 30 149)) (MKDigits (mkPtok 30 "3" 54 25 146)) (mkPtok 39 ":" 54 27 147) (mkPtok 42 "T" 54 29 148) (Some (mkPtok 40 "," 54 30 149))); (mkMatchPair (mkSpan (mkPtok 31 (string_of_bytes [34; 230; 182; 136; 230; 129; 175; 34]%N) 55 4 150) (mkPtok 42 "uint8x" 58 0 154)) (MKString (mkPtok 31 (string_of_bytes [34; 230; 182; 136; 230; 129; 175; 34]%N) 55 4 150)) (mkPtok 39 ":" 57 4 152) (mkPtok 42 "uint8x" 58 0 154) None); (mkMatchPair (mkSpan (mkPtok 30 "255" 59 0 155) (mkPtok 40 "," 60 0 158)) (MKDigits (mkPtok 30 "255" 59 0 155)) (mkPtok 39 ":" 59 3 156) (mkPtok 42 "Packet" 59 5 157) (Some (mkPtok 40 "," 60 0 158)))] (mkPtok 3 "}" 60 1 159)) (mkPtok 40 "," 61 0 161))); (mkFieldWithAttr (mkSpan (mkPtok 36 "repeat" 61 2 162) (mkPtok 40 "," 61 23 165)) [] (MetaField (mkSpan (mkPtok 36 "repeat" 61 2 162) (mkPtok 40 "," 61 23 165)) (Some (mkPtok 36 "repeat" 61 2 162)) (mkMetaDecl (mkSpan (mkPtok 16 "char[]" 61 9 163) (mkPtok 40 "," 61 23 165)) (TyDynamic (mkSpan (mkPtok 16 "char[]" 61 9 163) (mkPtok 16 "char[]" 61 9 163)) (mkDynamicString (mkSpan (mkPtok 16 "char[]" 61 9 163) (mkPtok 16 "char[]" 61 9 163)) (mkPtok 16 "char[]" 61 9 163))) (mkPtok 42 "Header" 61 16 164) None (mkPtok 40 "," 61 23 165))))] (mkPtok 3 "}" 61 25 166))); (DPacket (mkPacketDef (mkSpan (mkPtok 35 "packet" 61 27 167) (mkPtok 3 "}" 78 19 213)) None (mkPtok 35 "packet" 61 27 167) (mkPtok 42 "u128" 62 0 168) (mkPtok 2 "{" 62 5 169) [(mkFieldWithAttr (mkSpan (mkPtok 5 "@calculatedFrom(" 63 4 170) (mkPtok 40 "," 66 42 179)) [(FACalculatedFrom (mkSpan (mkPtok 5 "@calculatedFrom(" 63 4 170) (mkPtok 6 ")" 66 6 174)) (mkCalculatedFrom (mkSpan (mkPtok 5 "@calculatedFrom(" 63 4 170) (mkPtok 6 ")" 66 6 174)) (mkPtok 5 "@calculatedFrom(" 63 4 170) (mkPtok 31 (string_of_bytes [34; 195; 169; 116; 195; 169; 34]%N) 66 0 173) (mkPtok 6 ")" 66 6 174))); (FALengthOf (mkSpan (mkPtok 7 "@lengthOf(" 66 8 175) (mkPtok 6 ")" 66 34 177)) (mkLengthOf (mkSpan (mkPtok 7 "@lengthOf(" 66 8 175) (mkPtok 6 ")" 66 34 177)) (mkPtok 7 "@lengthOf(" 66 8 175) (mkPtok 42 "calculatedFrom" 66 19 176) (mkPtok 6 ")" 66 34 177)))] (ObjectField (mkSpan (mkPtok 42 "zchar" 66 36 178) (mkPtok 40 "," 66 42 179)) None (mkPtok 42 "zchar" 66 36 178) None None (mkPtok 40 "," 66 42 179))); (mkFieldWithAttr (mkSpan (mkPtok 7 "@lengthOf(" 66 44 180) (mkPtok 40 "," 70 9 190)) [(FALengthOf (mkSpan (mkPtok 7 "@lengthOf(" 66 44 180) (mkPtok 6 ")" 66 62 182)) (mkLengthOf (mkSpan (mkPtok 7 "@lengthOf(" 66 44 180) (mkPtok 6 ")" 66 62 182)) (mkPtok 7 "@lengthOf(" 66 44 180) (mkPtok 42 "Packet" 66 55 181) (mkPtok 6 ")" 66 62 182)))] (CheckSumField (mkSpan (mkPtok 42 "lengthOf" 67 4 183) (mkPtok 40 "," 70 9 190)) (mkChecksumFieldDecl (mkSpan (mkPtok 42 "lengthOf" 67 4 183) (mkPtok 40 "," 70 9 190)) None (mkPtok 42 "lengthOf" 67 4 183) (mkCalculatedFrom (mkSpan (mkPtok 5 "@calculatedFrom(" 67 13 184) (mkPtok 6 ")" 70 5 188)) (mkPtok 5 "@calculatedFrom(" 67 13 184) (mkPtok 31 """\n""" 70 0 187) (mkPtok 6 ")" 70 5 188)) (Some (mkPtok 43 "``" 70 7 189)) (mkPtok 40 "," 70 9 190)))); (mkFieldWithAttr (mkSpan (mkPtok 32 "@rightPad" 71 0 191) (mkPtok 40 "," 74 0 199)) [(FAPadding (mkSpan (mkPtok 32 "@rightPad" 71 0 191) (mkPtok 6 ")" 72 1 194)) (mkPaddingAttr (mkSpan (mkPtok 32 "@rightPad" 71 0 191) (mkPtok 6 ")" 72 1 194)) (mkPtok 32 "@rightPad" 71 0 191) (mkPtok 8 "(" 72 0 193) None (mkPtok 6 ")" 72 1 194)))] (MetaField (mkSpan (mkPtok 12 "char[" 72 3 195) (mkPtok 40 "," 74 0 199)) None (mkMetaDecl (mkSpan (mkPtok 12 "char[" 72 3 195) (mkPtok 40 "," 74 0 199)) (TyFixed (mkSpan (mkPtok 12 "char[" 72 3 195) (mkPtok 13 "]" 73 0 197)) (mkFixedString (mkSpan (mkPtok 12 "char[" 72 3 195) (mkPtok 13 "]" 73 0 197)) (mkPtok 12 "char[" 72 3 195) (mkPtok 30 "0123456789" 72 9 196) (mkPtok 13 "]" 73 0 197))) (mkPtok 42 "float" 73 2 198) None (mkPtok 40 "," 74 0 199)))); (mkFieldWithAttr (mkSpan (mkPtok 7 "@lengthOf(" 74 1 200) (mkPtok 40 "," 78 18 212)) [(FALengthOf (mkSpan (mkPtok 7 "@lengthOf(" 74 1 200) (mkPtok 6 ")" 74 20 202)) (mkLengthOf (mkSpan (mkPtok 7 "@lengthOf(" 74 1 200) (mkPtok 6 ")" 74 20 202)) (mkPtok 7 "@lengthOf(" 74 1 200) (mkPtok 42 "options1" 74 12 201) (mkPtok 6 ")" 74 20 202))); (FATag (mkSpan (mkPtok 9 "@tag(" 74 22 203) (mkPtok 6 ")" 77 4 206)) (mkTagAttr (mkSpan (mkPtok 9 "@tag(" 74 22 203) (mkPtok 6 ")" 77 4 206)) (mkPtok 9 "@tag(" 74 22 203) (mkPtok 30 "7" 75 0 204) (mkPtok 6 ")" 77 4 206))); (FATag (mkSpan (mkPtok 9 "@tag(" 78 0 207) (mkPtok 6 ")" 78 9 209)) (mkTagAttr (mkSpan (mkPtok 9 "@tag(" 78 0 207) (mkPtok 6 ")" 78 9 209)) (mkPtok 9 "@tag(" 78 0 207) (mkPtok 30 "007" 78 5 208) (mkPtok 6 ")" 78 9 209)))] (ObjectField (mkSpan (mkPtok 42 "crc" 78 11 210) (mkPtok 40 "," 78 18 212)) None (mkPtok 42 "crc" 78 11 210) (Some (mkPtok 42 "int" 78 15 211)) None (mkPtok 40 "," 78 18 212)))] (mkPtok 3 "}" 78 19 213))); (DPacket (mkPacketDef (mkSpan (mkPtok 35 "packet" 78 22 214) (mkPtok 3 "}" 80 76 234)) None (mkPtok 35 "packet" 78 22 214) (mkPtok 42 "i64_" 78 29 215) (mkPtok 2 "{" 78 33 216) [(mkFieldWithAttr (mkSpan (mkPtok 9 "@tag(" 80 4 218) (mkPtok 40 "," 80 34 224)) [(FATag (mkSpan (mkPtok 9 "@tag(" 80 4 218) (mkPtok 6 ")" 80 11 220)) (mkTagAttr (mkSpan (mkPtok 9 "@tag(" 80 4 218) (mkPtok 6 ")" 80 11 220)) (mkPtok 9 "@tag(" 80 4 218) (mkPtok 30 "7" 80 10 219) (mkPtok 6 ")" 80 11 220)))] (MetaField (mkSpan (mkPtok 36 "repeat" 80 13 221) (mkPtok 40 "," 80 34 224)) (Some (mkPtok 36 "repeat" 80 13 221)) (mkMetaDecl (mkSpan (mkPtok 15 "string" 80 20 222) (mkPtok 40 "," 80 34 224)) (TyDynamic (mkSpan (mkPtok 15 "string" 80 20 222) (mkPtok 15 "string" 80 20 222)) (mkDynamicString (mkSpan (mkPtok 15 "string" 80 20 222) (mkPtok 15 "string" 80 20 222)) (mkPtok 15 "string" 80 20 222))) (mkPtok 42 "Logon" 80 27 223) None (mkPtok 40 "," 80 34 224)))); (mkFieldWithAttr (mkSpan (mkPtok 9 "@tag(" 80 36 225) (mkPtok 40 "," 80 75 233)) [(FATag (mkSpan (mkPtok 9 "@tag(" 80 36 225) (mkPtok 6 ")" 80 43 227)) (mkTagAttr (mkSpan (mkPtok 9 "@tag(" 80 36 225) (mkPtok 6 ")" 80 43 227)) (mkPtok 9 "@tag(" 80 36 225) (mkPtok 30 "1" 80 42 226) (mkPtok 6 ")" 80 43 227)))] (LengthField (mkSpan (mkPtok 22 "u32" 80 45 228) (mkPtok 40 "," 80 75 233)) (mkLengthFieldDecl (mkSpan (mkPtok 22 "u32" 80 45 228) (mkPtok 40 "," 80 75 233)) (Some (TyBasic (mkSpan (mkPtok 22 "u32" 80 45 228) (mkPtok 22 "u32" 80 45 228)) (mkBasicType (mkSpan (mkPtok 22 "u32" 80 45 228) (mkPtok 22 "u32" 80 45 228)) (mkPtok 22 "u32" 80 45 228)))) (mkPtok 42 "metadata" 80 49 229) (mkLengthOf (mkSpan (mkPtok 7 "@lengthOf(" 80 58 230) (mkPtok 6 ")" 80 74 232)) (mkPtok 7 "@lengthOf(" 80 58 230) (mkPtok 42 "rootA" 80 69 231) (mkPtok 6 ")" 80 74 232)) None (mkPtok 40 "," 80 75 233))))] (mkPtok 3 "}" 80 76 234)))])).
 Eval vm_compute in ("<<<M303>>>" ++ check (runes_of_ascii "options {
     StringPrefixLenType = u16;
     ArrayPrefixLenType = u16;
@@ -579,108 +670,168 @@ packet Detail {
     u16 Code `" ++ [21407; 22240; 20195; 30721]%N ++ runes_of_ascii "`,
 }")).
 Eval vm_compute in ("<<<M313>>>" ++ check (@nil rune)).
-Eval vm_compute in ("<<<M323>>>" ++ check (runes_of_ascii "packet
-asx")).
-Eval vm_compute in ("<<<M333>>>" ++ check (runes_of_ascii "packet
-asx
-{ Z9_")).
-Eval vm_compute in ("<<<M343>>>" ++ check (runes_of_ascii "packet
-asx
-{ Z9_ Header// " ++ [128512]%N ++ runes_of_ascii " emoji
-,")).
-Eval vm_compute in ("<<<M353>>>" ++ check (runes_of_ascii "packet
-asx
-{ Z9_ Header// " ++ [128512]%N ++ runes_of_ascii " emoji
-,} packet")).
-Eval vm_compute in ("<<<M363>>>" ++ check (runes_of_ascii "packet
-asx
-{ Z9_ Header// " ++ [128512]%N ++ runes_of_ascii " emoji")).
-Eval vm_compute in ("<<<M373>>>" ++ check (runes_of_ascii "packet
-asx
-{ Z9_ Header// " ++ [128512]%N ++ runes_of_ascii " emoji
-,} packet pac@k
-    { }
+Eval vm_compute in ("<<<M323>>>" ++ check (runes_of_ascii "MetaData
+crc")).
+Eval vm_compute in ("<<<M333>>>" ++ check (runes_of_ascii "MetaData
+crc	{ char[]")).
+Eval vm_compute in ("<<<M343>>>" ++ check (runes_of_ascii "MetaData
+crc	{ char[] Z9_`{ , }`")).
+Eval vm_compute in ("<<<M353>>>" ++ check (runes_of_ascii "MetaData
+crc	{ char[] Z9_`{ , }`,}")).
+Eval vm_compute in ("<<<M363>>>" ++ check (runes_of_ascii "MetaData
+crc	{ char[] Z9_`{ , }`,} options {")).
+Eval vm_compute in ("<<<M373>>>" ++ check (runes_of_ascii "MetaData
+crc	{ char[] Z9_`{ , }`,} options { tag =")).
+Eval vm_compute in ("<<<M383>>>" ++ check (runes_of_ascii "MetaData
+crc	{ char[] Z9_`{ , }`,} options { tag =
+    false }")).
+Eval vm_compute in ("<<<T383>>>" ++ terms [mkTok 37 "MetaData" 1 0 false; mkTok 42 "crc" 2 0 false; mkTok 2 "{" 2 4 false; mkTok 16 "char[]" 2 6 false; mkTok 42 "Z9_" 2 13 false; mkTok 43 "`{ , }`" 2 16 false; mkTok 40 "," 2 23 false; mkTok 3 "}" 2 24 false; mkTok 1 "options" 2 26 false; mkTok 2 "{" 2 34 false; mkTok 42 "tag" 2 36 false; mkTok 4 "=" 2 40 false; mkTok 11 "false" 3 4 false; mkTok 3 "}" 3 10 false; mkTok 0 "<EOF>" 3 11 false] (mkPacket (mkPtok 37 "MetaData" 1 0 0) (Some (mkPtok 3 "}" 3 10 13)) [(DMeta (mkMetaDef (mkSpan (mkPtok 37 "MetaData" 1 0 0) (mkPtok 3 "}" 2 24 7)) (mkPtok 37 "MetaData" 1 0 0) (mkPtok 42 "crc" 2 0 1) (mkPtok 2 "{" 2 4 2) [(MIDecl (mkMetaDecl (mkSpan (mkPtok 16 "char[]" 2 6 3) (mkPtok 40 "," 2 23 6)) (TyDynamic (mkSpan (mkPtok 16 "char[]" 2 6 3) (mkPtok 16 "char[]" 2 6 3)) (mkDynamicString (mkSpan (mkPtok 16 "char[]" 2 6 3) (mkPtok 16 "char[]" 2 6 3)) (mkPtok 16 "char[]" 2 6 3))) (mkPtok 42 "Z9_" 2 13 4) (Some (mkPtok 43 "`{ , }`" 2 16 5)) (mkPtok 40 "," 2 23 6)))] (mkPtok 3 "}" 2 24 7))); (DOption (mkOptionDef (mkSpan (mkPtok 1 "options" 2 26 8) (mkPtok 3 "}" 3 10 13)) (mkPtok 1 "options" 2 26 8) (mkPtok 2 "{" 2 34 9) [(mkOptionDecl (mkSpan (mkPtok 42 "tag" 2 36 10) (mkPtok 11 "false" 3 4 12)) (mkPtok 42 "tag" 2 36 10) (mkPtok 4 "=" 2 40 11) (VFalse (mkSpan (mkPtok 11 "false" 3 4 12) (mkPtok 11 "false" 3 4 12)) (mkPtok 11 "false" 3 4 12)) None)] (mkPtok 3 "}" 3 10 13)))])).
+Eval vm_compute in ("<<<M393>>>" ++ check (runes_of_ascii "MetaData
+crc	{ char[] Z9_`{ , }`,} options { tag =
+    false } packet
+// a // b
+// @lengthOf(
+Pad")).
+Eval vm_compute in ("<<<M403>>>" ++ check (runes_of_ascii "MetaData
+crc	{ char[] Z9_`{ , }`,} options { tag =
+    false } packet
+// a // b
+// @lengthOf(
+Pad {Foo")).
+Eval vm_compute in ("<<<M413>>>" ++ check (runes_of_ascii "MetaData
+crc	{ char[] Z9_`{ , }`,} options { tag =
+    false } packet
+// a // b
+// @lengthOf(
+Pad {Foo @calculatedFrom( // `tick` ""quote"" 'q'
+""a\\""")).
+Eval vm_compute in ("<<<M423>>>" ++ check (runes_of_ascii "MetaData
+crc	{ char[] Z9_`{ , }`,} options { tag =
+    false } packet
+// a // b
+// @lengthOf(
+Pad {Foo @calculatedFrom( // `tick` ""quote"" 'q'
+""a\\"" ) ,")).
+Eval vm_compute in ("<<<M433>>>" ++ check (runes_of_ascii "MetaData
+crc	{ char[] Z9_`{ , }`,} options { tag =
+    false } packet
+// a // b
+// @lengthOf(
+Pad {Foo @calculatedFrom( // `tick` ""quote"" 'q'
+""a\\"" ) ,
+    trueish ,")).
+Eval vm_compute in ("<<<M443>>>" ++ check (runes_of_ascii "MetaData
+crc	{ char[] Z9_`{ , }`,} options { tag =
+    false } packet
+// a // b
+// @lengthOf(
+Pad {Foo @calculatedFrom( // `tick` ""quote"" 'q'
+""a\\"" ) ,
+    trueish ,
+    char[ 00")).
+Eval vm_compute in ("<<<M453>>>" ++ check (runes_of_ascii "MetaData
+crc	{ char[] Z9_`{ , }`,} options { tag =
+    false } packet
+// a // b
+// @lengthOf(
+Pad {Foo @calculatedFrom( // `tick` ""quote"" 'q'
+""a\\"" ) ,
+    trueish ,
+    char[ 00]
+    // " ++ [128512]%N ++ runes_of_ascii " emoji
+    packetx")).
+Eval vm_compute in ("<<<M463>>>" ++ check (runes_of_ascii "MetaData
+crc	{ char[] Z9_`{ , }`,} options { tag =
+    false } packet
+// a // b
+// @lengthOf(
+Pad {Foo @calculatedFrom( // `tick` ""quote"" 'q'
+""a\\"" ) ,
+    trueish ,
+    char[ 00]
+    // " ++ [128512]%N ++ runes_of_ascii " emoji
+    packetx , @x}
 ")).
-Eval vm_compute in ("<<<M383>>>" ++ check (runes_of_ascii "packet
-asx
-{ Z9_ x" ++ [178]%N ++ runes_of_ascii "// " ++ [128512]%N ++ runes_of_ascii " emoji
-,} packet pack
-    { }
+Eval vm_compute in ("<<<M473>>>" ++ check (runes_of_ascii "MetaData
+crc	{ char[] Z9_`{ , }`,} options ? { tag =
+    false } packet
+// a // b
+// @lengthOf(
+Pad {Foo @calculatedFrom( // `tick` ""quote"" 'q'
+""a\\"" ) ,
+    trueish ,
+    char[ 00]
+    // " ++ [128512]%N ++ runes_of_ascii " emoji
+    packetx , }
 ")).
-Eval vm_compute in ("<<<M393>>>" ++ check (runes_of_ascii "MetaData @tag( { char[ // `tick` ""quote"" 'q'
-3] body, } packet o{
-u8
-charz ,
-    }")).
-Eval vm_compute in ("<<<M403>>>" ++ check (runes_of_ascii "MetaData o { ; // `tick` ""quote"" 'q'
-3] body, } packet o{
-u8
-charz ,
-    }")).
-Eval vm_compute in ("<<<M413>>>" ++ check (runes_of_ascii "MetaData o { char[ // `tick` ""quote"" 'q'
-3@lengthOf( body, } packet o{
-u8
-charz ,
-    }")).
-Eval vm_compute in ("<<<M423>>>" ++ check (runes_of_ascii "MetaData o { char[ // `tick` ""quote"" 'q'
-3] body root } packet o{
-u8
-charz ,
-    }")).
-Eval vm_compute in ("<<<M433>>>" ++ check (runes_of_ascii "MetaData o { char[ // `tick` ""quote"" 'q'
-3] body, } ' ' o{
-u8
-charz ,
-    }")).
-Eval vm_compute in ("<<<M443>>>" ++ check (runes_of_ascii "MetaData o { char[ // `tick` ""quote"" 'q'
-3] body, } packet o[
-u8
-charz ,
-    }")).
-Eval vm_compute in ("<<<M453>>>" ++ check (runes_of_ascii "MetaData o { char[ // `tick` ""quote"" 'q'
-3] body, } packet o{
-u8
-'\x00' ,
-    }")).
-Eval vm_compute in ("<<<M463>>>" ++ check (runes_of_ascii "MetaData o { char[ // `tick` ""quote"" 'q'
-3] body, } packet o{
-u8
-charz ,")).
-Eval vm_compute in ("<<<M473>>>" ++ check (runes_of_ascii "MetaData o { char[ // `tick` ""quote"" 'q'
-3] body, } packet o'\x01'{
-u8
-charz ,
-    }")).
-Eval vm_compute in ("<<<M483>>>" ++ check (runes_of_ascii "MetaData o { char[ // `tick` ""quote"" 'q'
-3] a" ++ [769]%N ++ runes_of_ascii "b, } packet o{
-u8
-charz ,
-    }")).
-Eval vm_compute in ("<<<M493>>>" ++ check (runes_of_ascii "options calculatedFrom{ =	int8 ;}
-
-")).
-Eval vm_compute in ("<<<M503>>>" ++ check (runes_of_ascii "options {calculatedFrom int8	= ;}
-
-")).
-Eval vm_compute in ("<<<M513>>>" ++ check (runes_of_ascii "options {calculatedFrom =	int8 };
-
-")).
-Eval vm_compute in ("<<<M523>>>" ++ check (runes_of_ascii "options {calculatedF")).
-Eval vm_compute in ("<<<M533>>>" ++ check (runes_of_ascii "options {@xcalculatedFrom =	int8 ;}
-
-")).
-Eval vm_compute in ("<<<M543>>>" ++ check (runes_of_ascii "
-MetaData chars { {Logon packetx,
-    float calculatedFrom
-,  u32 i64_ ,	}")).
-Eval vm_compute in ("<<<M553>>>" ++ check (runes_of_ascii "
-MetaData chars {Logon packetx,
-    float calculatedFrom
-,  u32  ,	}")).
+Eval vm_compute in ("<<<M483>>>" ++ check (runes_of_ascii "root packet _x	{")).
+Eval vm_compute in ("<<<M493>>>" ++ check (runes_of_ascii "root packet _x	{ @rightPad (
+' ' ) string u8x @lengthOf(
+    _x
+i64 , repeat Pad  { // " ++ [128512]%N ++ runes_of_ascii " emoji
+As
+// `tick` ""quote"" 'q'
+//x
+{matchKey chars,
+} , }, }")).
+Eval vm_compute in ("<<<M503>>>" ++ check (runes_of_ascii "root packet _x	{ zchar[ (
+' ' ) string u8x @lengthOf(
+    _x
+) , repeat Pad  { // " ++ [128512]%N ++ runes_of_ascii " emoji
+As
+// `tick` ""quote"" 'q'
+//x
+{matchKey chars,
+} , }, }")).
+Eval vm_compute in ("<<<M513>>>" ++ check (runes_of_ascii "root , _x	{ @rightPad (
+' ' ) string u8x @lengthOf(
+    _x
+) , repeat Pad  { // " ++ [128512]%N ++ runes_of_ascii " emoji
+As
+// `tick` ""quote"" 'q'
+//x
+{matchKey chars,
+} , }, }")).
+Eval vm_compute in ("<<<M523>>>" ++ check (runes_of_ascii "root packet _x	{ @rightPad (
+' ' ) string u8x @lengthOf(
+    _x
+) , repeat Pad  { // " ++ [128512]%N ++ runes_of_ascii " emoji
+As
+// `tick` ""quote"" 'q'
+//x
+{matchKey "" chars,
+} , }, }")).
+Eval vm_compute in ("<<<M533>>>" ++ check (runes_of_ascii "root packet _x	{ @rightPad (
+' ' ) string u8x @lengthOf(
+    _x
+) ,% repeat Pad  { // " ++ [128512]%N ++ runes_of_ascii " emoji
+As
+// `tick` ""quote"" 'q'
+//x
+{matchKey chars,
+} , }, }")).
+Eval vm_compute in ("<<<M543>>>" ++ check (runes_of_ascii "root packet _x	{ @rightPad (
+' ' ) string u8x @lengthOf(
+    _x
+) , repeat Pad  { // " ++ [128512]%N ++ runes_of_ascii " emoji
+As
+// `tick` ""quote"" 'q'
+//x
+{matchKey chars,
+] , }, }")).
+Eval vm_compute in ("<<<M553>>>" ++ check (runes_of_ascii "root packet _x	{ @rightPad (
+' ' ) string u8x u8x @lengthOf(
+    _x
+) , repeat Pad  { // " ++ [128512]%N ++ runes_of_ascii " emoji
+As
+// `tick` ""quote"" 'q'
+//x
+{matchKey chars,
+} , }, }")).
 Eval vm_compute in ("<<<M563>>>" ++ check (@nil rune)).
 Eval vm_compute in ("<<<M573>>>" ++ check (runes_of_ascii "
 
 
 ")).
-Eval vm_compute in ("<<<M583>>>" ++ check (runes_of_ascii "@tag( @rightPad [ , @calculatedFrom( string int16 ) uint8x true char char[] @tag( zchar[")).
-Eval vm_compute in ("<<<M593>>>" ++ check ([65533]%N ++ runes_of_ascii "P" ++ [65533]%N ++ runes_of_ascii "a" ++ [65533; 65533; 65533; 65533]%N ++ runes_of_ascii "H" ++ [65533; 65533; 65533; 65533; 65533; 65533; 65533]%N)).
+Eval vm_compute in ("<<<M583>>>" ++ check (runes_of_ascii "{ : , root string @leftPad char [ f32")).
+Eval vm_compute in ("<<<M593>>>" ++ check (runes_of_ascii "u" ++ [605; 65533]%N ++ runes_of_ascii "#dh" ++ [65533; 65533]%N ++ runes_of_ascii "j " ++ [65533; 65533; 65533]%N ++ runes_of_ascii "l" ++ [65533]%N ++ runes_of_ascii "9G" ++ [65533; 65533]%N)).
